@@ -1,17 +1,30 @@
-"""C03 - Structured settings decode Cobalt Strike's binary encodings exactly (structural part)."""
+"""C03 - Structured settings decode Cobalt Strike's binary encodings exactly (structural part).
+
+How the rules of this module look at the code.  The parsers of the structured settings (transform / recover programs,
+execute lists, the sleep-mask section table, the process-inject transform, the BeaconGate option string) are not matched
+against a particular *spelling* (an if/elif chain, a list named ENABLE_STEPS, a `while True` loop ...).  They are
+*evaluated* by a small symbolic evaluator (`_Ev`, below) on abstract inputs: for every opcode of the wire format the
+opcode read is given its concrete bytes, everything else the stream hands out is symbolic, and the rules compare what
+every path of one loop iteration does - which reads of which lengths, which value is appended to the result, whether the
+loop goes on - with what the format prescribes.  An if-chain, a lookup table keyed by opcode, a data-driven loop over
+(label, set) pairs, guard clauses with `continue`, De-Morganed conditions, `for d in iter(partial(p.read, 4), b"")`
+instead of `while True`, helper functions, conditional expressions and temporaries all evaluate to the same thing.
+Where the evaluator meets something it does not model, the obligation is *undecided* (the construct could not be
+located), never violated.
+"""
 
 from __future__ import annotations
 
 import ast
+import dataclasses
 import glob
 import os
 
 from csverif import tables
 from csverif.astutil import (
-    assignments_to, body_walk, compare_parts, const_eval, dotted, fn_calls, is_const, kwarg, NotConst, param_annotation,
-    param_defaults, params, src, statements,
+    bind_args, body_walk, compare_parts, const_eval, dotted, fn_calls, is_const, kwarg, NotConst, param_annotation,
+    param_defaults, params, src,
 )
-from csverif.q import FuncView, calls_to, guarded_by, origin, reaching_origins  # noqa: F401
 
 
 def _c(node):
@@ -21,37 +34,19 @@ def _c(node):
         return None
 
 
-def _members(node):
-    """['X', ...] for a list/tuple/set literal of TransformStep.X attributes."""
-    out = []
-    if isinstance(node, (ast.List, ast.Tuple, ast.Set)):
-        for e in node.elts:
-            d = dotted(e) or ""
-            if d.startswith("TransformStep."):
-                out.append(d.split(".", 1)[1])
-            else:
-                out.append("?" + src(e))
-    return out
-
-
-def _is_be32(ctx, f, call):
-    cal = ctx.rs.resolve_call(f, call)
-    if cal.kind != "func" or cal.func.fq != "utils.unpack":
-        return None
-    size = _c(cal.bound.get("size")) if "size" in cal.bound else _c(kwarg(call, "size"))
-    bo = _c(cal.bound.get("byteorder")) if "byteorder" in cal.bound else (_c(kwarg(call, "byteorder")) or "little")
-    sg = _c(cal.bound.get("signed")) if "signed" in cal.bound else (_c(kwarg(call, "signed")) or False)
-    return (size, bo, bool(sg))
-
-
 def run(ctx):
     rep = ctx.rep
     rep.explanation = (
-        "Static analysis of beacon.py: opcode/enum tables parsed from CS_DEF compared completely with reference tables; "
-        "arity classes of the transform parser (disjoint, complete, equal to the reference); every integer read in the "
-        "program parsers resolved to a 4-byte big-endian unsigned unpack with def-use of the decoded length; per-branch "
-        "literal agreement in the recover parser; BeaconGate group partition; attributes used on cstruct instances "
-        "checked against the installed dissect.cstruct sources; pretty-function table keys and sibling agreement; "
+        "Static analysis of beacon.py: opcode/enum tables parsed from CS_DEF compared completely with reference tables. The "
+        "structured-setting parsers are evaluated symbolically (one loop iteration per opcode of the wire format, the opcode "
+        "read concrete, every other read symbolic and complete, undecidable tests forked): for every TransformStep opcode the "
+        "client-program parser must read and emit exactly what its arity class prescribes (no argument / 32-bit big-endian "
+        "length prefix / BUILD selector 0->build target, 1->'output'), the recover parser the prescribed literal with True or "
+        "the decoded length, the execute-list parser the prescribed argument reads per InjectExecutor, the section-table "
+        "parser one entry per non-zero (start, end) in stream order, and after every well-formed step the loop must go on; "
+        "every integer decoded in the program parsers is a 4-byte big-endian unsigned decode of a whole 4-byte read; "
+        "BeaconGate group tests evaluated over all outcomes; pretty-function table entries evaluated as 'which decoder is "
+        "applied to the data'; attributes used on cstruct instances checked against the installed dissect.cstruct sources; "
         "derived properties read the setting their name says."
     )
     rep.not_decided = ["decoded byte arguments for all programs", "parse_gargle endianness (no independent reference)", "killdate formatting, IPv4 rendering"]
@@ -66,49 +61,6 @@ def run(ctx):
     r7(ctx)
     r8(ctx)
     r9(ctx)
-
-
-def r9(ctx):
-    """Sleep-mask section table: every (start, end) pair read is reported, in read order, unless it is the all-zero
-    terminator - no well-formed entry (e.g. one starting at offset 0) may be dropped."""
-    from csverif.q import specialise
-
-    f = ctx.repo.func("beacon.parse_gargle")
-    cfg = ctx.cfg(f)
-    fv = FuncView.of(f.node)
-    loops = [s for s in statements(f.node) if isinstance(s, ast.While)]
-    rets = [r for r in statements(f.node) if isinstance(r, ast.Return) and r.value is not None]
-    out = dotted(rets[0].value) if len(rets) == 1 else None
-    apps = [c for c in fn_calls(f.node) if isinstance(c.func, ast.Attribute) and c.func.attr == "append" and dotted(c.func.value) == out and len(c.args) == 1]
-    if len(loops) != 1 or out is None or len(apps) != 1:
-        ctx.ob("R9", "AGREE", f, "section table loop", False, f"expected one while loop, one returned list and one append to it; found {len(loops)}/{out}/{len(apps)}", f.node)
-        return
-    w, app = loops[0], apps[0]
-    # the two integers of an entry: locals defined in the loop from an unpack of a 4-byte read, in statement order
-    ints = []
-    for s in statements(w):
-        if isinstance(s, ast.Assign) and len(s.targets) == 1 and isinstance(s.targets[0], ast.Name) and isinstance(s.value, ast.Call) and _is_be32(ctx, f, s.value) is not None:
-            ints.append((s.targets[0].id, s, _is_be32(ctx, f, s.value)))
-    names = [n for n, _s, _k in ints]
-    ctx.ob("R9", "AGREE", f, "entry = two 32-bit reads", len(ints) == 2 and ints[0][2] == ints[1][2] and ints[0][2][0] == 4 and not ints[0][2][2],
-           f"entry integers {[(n, k) for n, _s, k in ints]} (two unsigned 4-byte reads decoded alike)", w)
-    if len(ints) != 2:
-        return
-    from csverif.q import inline
-
-    val = inline(f.node, app.args[0], stop=frozenset(names))
-    used_sorted = [n.id for n in sorted((n for n in ast.walk(val) if isinstance(n, ast.Name) and n.id in names), key=lambda n: (n.lineno, n.col_offset))]
-    ctx.ob("R9", "AGREE", f, "entry text = start-end", used_sorted == names, f"appended value {src(val)[:60]} uses {used_sorted}; required {names} (read order)", app)
-    app_st = fv.stmt_of(app)
-    last = cfg.node(ints[1][1])
-    head = cfg.node(w)
-    bad = []
-    for a, b in ((True, True), (True, False), (False, True)):
-        c2 = specialise(cfg, {names[0]: a, names[1]: b}, ints=frozenset(names))
-        if c2.reaches(last, head, avoiding=[cfg.node(app_st)]):
-            bad.append(f"{names[0]}{'!=' if a else '=='}0,{names[1]}{'!=' if b else '=='}0")
-    ctx.ob("R9", "DOM", f, "every non-terminator entry reported", not bad,
-           "for each of start/end non-zero the append lies on every path of the iteration" if not bad else f"an entry with {bad} can complete the iteration without being appended", app)
 
 
 def r1(ctx):
@@ -128,247 +80,2775 @@ def r1(ctx):
     ctx.rep.count("beacon_gate_fields", len(names), floor=23)
 
 
-def r2(ctx):
-    f = ctx.repo.func("beacon.parse_transform_binary")
-    # roles are discovered from the dispatch, not from variable names: the list tested by the branch that appends
-    # (name, True) is the no-argument class, the one tested by the branch that reads an argument the length-prefixed
-    # class; the dict whose .get() maps the build selector is the build map
-    loc = {"ENABLE_STEPS": None, "ARGUMENT_STEPS": None, "BUILD_MAP": None}
-    role_name = {}
-    for st in statements(f.node):
-        if isinstance(st, ast.If) and isinstance(st.test, ast.Compare) and len(st.test.ops) == 1 and isinstance(st.test.ops[0], ast.In) and isinstance(st.test.comparators[0], ast.Name):
-            lname = st.test.comparators[0].id
-            d = assignments_to(f.node, lname)
-            if len(d) != 1 or not isinstance(d[0][1], (ast.List, ast.Tuple, ast.Set)):
-                continue
-            reads = any(isinstance(c, ast.Call) and isinstance(c.func, ast.Attribute) and c.func.attr == "read" for s2 in st.body for c in ast.walk(s2))
-            role = "ARGUMENT_STEPS" if reads else "ENABLE_STEPS"
-            loc[role] = d[0][1]
-            role_name[lname] = role
-    for n in body_walk(f.node):
-        if isinstance(n, ast.Call) and isinstance(n.func, ast.Attribute) and n.func.attr == "get" and isinstance(n.func.value, ast.Name):
-            d = assignments_to(f.node, n.func.value.id)
-            if len(d) == 1 and isinstance(d[0][1], ast.Dict):
-                loc["BUILD_MAP"] = d[0][1]
-                role_name[n.func.value.id] = "BUILD_MAP"
-    en, ar = set(_members(loc["ENABLE_STEPS"])), set(_members(loc["ARGUMENT_STEPS"]))
-    ctx.ob("R2", "TABLE", f, "ENABLE_STEPS", en == tables.STEPS_NO_ARG, f"no-argument opcodes {sorted(en)}; reference {sorted(tables.STEPS_NO_ARG)}", loc["ENABLE_STEPS"] or f.node)
-    ctx.ob("R2", "TABLE", f, "ARGUMENT_STEPS", ar == tables.STEPS_LEN_ARG, f"length-prefixed opcodes {sorted(ar)}; reference {sorted(tables.STEPS_LEN_ARG)}", loc["ARGUMENT_STEPS"] or f.node)
-    ctx.ob("R2", "TABLE", f, "classes disjoint", not (en & ar) and "BUILD" not in en | ar, f"overlap={sorted(en & ar)}")
-    cover = en | ar | tables.STEPS_BUILD | set(tables.STEPS_EXEMPT)
-    ctx.ob("R2", "TABLE", f, "classes complete", cover == set(tables.TRANSFORM_STEPS), f"opcodes without a class: {sorted(set(tables.TRANSFORM_STEPS) - cover)} (exempt: {tables.STEPS_EXEMPT})")
-    bm = loc["BUILD_MAP"]
-    bm_ok = isinstance(bm, ast.Dict) and len(bm.keys) == 2 and {_c(k) for k in bm.keys} == {0, 1}
-    if bm_ok:
-        m = {_c(k): v for k, v in zip(bm.keys, bm.values)}
-        bm_ok = dotted(m[0]) == "build" and is_const(m[1], "output")
-    ctx.ob("R2", "TABLE", f, "BUILD_MAP", bm_ok, f"BUILD selector map is {src(bm)}; required {{0: <build parameter>, 1: 'output'}}", bm or f.node)
-    d = param_defaults(f.node).get("build")
-    ctx.ob("R2", "TABLE", f, "build default", is_const(d, "metadata"), f"default build is {src(d)} ('metadata' for http-get client)")
-    # dispatch of the three classes
-    fv = FuncView.of(f.node)
-    for st in statements(f.node):
-        if not isinstance(st, ast.If):
-            continue
-        t = st.test
-        cls = None
-        if isinstance(t, ast.Compare) and len(t.ops) == 1 and isinstance(t.ops[0], ast.In) and role_name.get(dotted(t.comparators[0])) in ("ENABLE_STEPS", "ARGUMENT_STEPS"):
-            cls = role_name[dotted(t.comparators[0])]
-        elif any(isinstance(op, ast.Eq) and "TransformStep.BUILD" in (dotted(l), dotted(r)) for l, op, r in compare_parts(t)):
-            cls = "BUILD"
-        if cls is None:
-            continue
-        apps = [c for s in st.body for c in ast.walk(s) if isinstance(c, ast.Call) and isinstance(c.func, ast.Attribute) and c.func.attr == "append"]
-        ok = False
-        detail = "branch does not append exactly one (name, value) step"
-        if len(apps) == 1 and apps[0].args and isinstance(apps[0].args[0], ast.Tuple) and len(apps[0].args[0].elts) == 2:
-            nm, val = apps[0].args[0].elts
-            nmo = origin(f.node, nm)
-            # the emitted name is <enum member>.name of the opcode decoded in this iteration
-            nm_ok = isinstance(nmo, ast.Attribute) and nmo.attr == "name" and isinstance(origin(f.node, nmo.value), ast.Call) and dotted(origin(f.node, nmo.value).func) == "TransformStep"
-            if cls == "ENABLE_STEPS":
-                ok = nm_ok and is_const(val, True)
-                detail = f"appends ({src(nm)}, {src(val)}); required (opcode name, True)"
-            elif cls == "ARGUMENT_STEPS":
-                vo = [o for o in reaching_origins(ctx, f, val, apps[0])]
-                rd = vo[0] if len(vo) == 1 else None
-                ln = rd.args[0] if isinstance(rd, ast.Call) and isinstance(rd.func, ast.Attribute) and rd.func.attr == "read" and rd.args else None
-                lo = reaching_origins(ctx, f, ln, rd) if ln is not None else []
-                len_ok = len(lo) == 1 and isinstance(lo[0], ast.Call) and _is_be32(ctx, f, lo[0]) == (4, "big", False)
-                ok = nm_ok and len_ok
-                detail = f"appends ({src(nm)}, {src(rd)}); argument length {src(ln)} is a 4-byte big-endian read={len_ok}"
+# ======================================================================================================================
+# A small symbolic evaluator (private to this module; candidate for csverif/).
+#
+# It *executes* a function of the analysed package on abstract inputs: parameters are opaque symbols, a stream made
+# from a parameter hands out symbolic reads (or the concrete bytes an oracle prescribes), integers decoded from a read
+# are terms `dec(read, byteorder, signed)`, lists/sets/dicts are heap objects, tests that cannot be decided fork the
+# path.  A `while` loop (and a `for .. in iter(callable, sentinel)` loop) is executed for ONE representative iteration:
+# a path that reaches the back edge ends with the signal ('next', loop).  The rules then compare what every path did
+# (which reads, which values appended to the result, how the path ended) with what the wire format prescribes.  That
+# makes them independent of how the dispatch is spelled (if-chain, lookup table, data-driven loop, guard clauses,
+# early continue, helper functions, conditional expressions ...).
+# ======================================================================================================================
+class _Stop(Exception):
+    """The evaluator met something it does not model on the path it follows: the run is undecided."""
+
+
+class _Fork(Exception):
+    def __init__(self, value, node):
+        super().__init__("fork")
+        self.value, self.node = value, node
+
+
+class _Raise(Exception):
+    def __init__(self, what):
+        super().__init__(what)
+        self.what = what
+
+
+@dataclasses.dataclass(frozen=True)
+class _Par:  # parameter of the analysed function
+    name: str
+
+
+@dataclasses.dataclass(frozen=True)
+class _Rd:  # the bytes returned by the idx-th read of the path; n = requested length (reads are complete)
+    idx: int
+    n: object
+    pos: object = None  # offset in the stream where the read starts, when known
+
+
+@dataclasses.dataclass(frozen=True)
+class _T:  # symbolic term
+    op: str
+    args: tuple
+
+
+@dataclasses.dataclass(frozen=True)
+class _En:  # member (or nameless value) of a cstruct enum
+    tname: str
+    name: object
+    value: object
+
+
+@dataclasses.dataclass(frozen=True)
+class _EnT:  # cstruct enum type
+    tname: str
+    mod: str
+    var: str
+
+
+@dataclasses.dataclass(frozen=True)
+class _Ref:  # reference to a heap object
+    oid: tuple
+
+
+@dataclasses.dataclass(frozen=True)
+class _Fn:  # callable
+    kind: str
+    a: object = None
+    b: object = None
+    c: object = None
+
+
+@dataclasses.dataclass(frozen=True)
+class _Unk:  # unknown value; deps name what it was computed from ('lost': from known values by an unmodelled operation)
+    deps: frozenset
+    why: str = ""
+
+
+_LOST = frozenset({"lost"})
+
+
+class _HList:
+    def __init__(self, items=None, root=None, opaque=False):
+        self.items, self.root, self.opaque = list(items or []), root, opaque
+
+    def copy(self):
+        return _HList(self.items, self.root, self.opaque)
+
+
+class _HSet:
+    def __init__(self, items=()):
+        self.items = set(items)
+
+    def copy(self):
+        return _HSet(self.items)
+
+
+class _HDict:
+    def __init__(self, pairs=()):
+        self.pairs = [list(p) for p in pairs]
+
+    def copy(self):
+        return _HDict(self.pairs)
+
+
+class _HStream:
+    def __init__(self, src, pos=0):
+        self.src, self.pos = src, pos
+
+    def copy(self):
+        return _HStream(self.src, self.pos)
+
+
+class _HSym:
+    """A collection selected from a universe by conditions that are not known: {x for x in U if cond(x)}.
+    elems: element -> condition value (None when the universe itself is unknown); subs: the sets removed since."""
+
+    def __init__(self, root, kind, elems, subs=(), origin=None, init=None):
+        self.root, self.kind, self.elems, self.subs, self.origin = root, kind, (dict(elems) if elems is not None else None), list(subs), origin
+        self.init = init if init is not None else (dict(elems) if elems is not None else None)
+
+    def copy(self):
+        return _HSym(self.root, self.kind, self.elems, self.subs, self.origin, self.init)
+
+
+class _Frame:
+    def __init__(self, env, mod, func=None, parent=None, locals_=frozenset()):
+        self.env, self.mod, self.func, self.parent, self.locals = env, mod, func, parent, locals_
+
+
+class _St:
+    def __init__(self):
+        self.frames = []
+        self.heap = {}
+        self.reads = []  # (idx, n, content|None)
+        self.events = []
+        self.forks = []  # (test node, value without negations, its truth, truth of the test as written)
+        self.imprecise = []
+        self.counts = {}
+        self.modcache = {}
+        self.script = []
+        self.depth = 0
+        self.site = None
+        self.snap = None
+        self.in_loop = None
+        self.facts = {}  # decoded integer (term) -> is it zero, as decided earlier on this path
+
+    def fork(self):
+        s = _St()
+        # frames: copy the environments, keep the parent links consistent
+        m = {}
+        for fr in self.frames:
+            nf = _Frame(dict(fr.env), fr.mod, fr.func, m.get(id(fr.parent)) if fr.parent is not None else None, fr.locals)
+            m[id(fr)] = nf
+            s.frames.append(nf)
+        s.heap = {k: v.copy() for k, v in self.heap.items()}
+        s.reads = list(self.reads)
+        s.events = list(self.events)
+        s.forks = list(self.forks)
+        s.imprecise = list(self.imprecise)
+        s.counts = dict(self.counts)
+        s.modcache = dict(self.modcache)
+        s.script = list(self.script)
+        s.depth = self.depth
+        s.site = self.site
+        s.snap = dict(self.snap) if self.snap is not None else None
+        s.in_loop = self.in_loop
+        s.facts = dict(self.facts)
+        return s
+
+    def alloc(self, node, obj, tag=""):
+        k = (tag, id(node))
+        n = self.counts.get(k, 0)
+        self.counts[k] = n + 1
+        oid = (tag, getattr(node, "lineno", 0), getattr(node, "col_offset", 0), id(node), n)
+        if getattr(obj, "root", 0) is None:
+            obj.root = oid
+        self.heap[oid] = obj
+        return _Ref(oid)
+
+
+def _deps(v) -> frozenset:
+    if isinstance(v, _Rd):
+        return frozenset({("rd", v.idx)}) | _deps(v.n)
+    if isinstance(v, _Par):
+        return frozenset({("par", v.name)})
+    if isinstance(v, _T):
+        out = frozenset()
+        for a in v.args:
+            out |= _deps(a)
+        if v.op in ("superset", "rest"):
+            return out | frozenset({("set", v.args[0])})
+        # a term over nothing symbolic has a definite value that the evaluator failed to compute
+        return out or _LOST
+    if isinstance(v, _En):
+        return _deps(v.value)
+    if isinstance(v, _Unk):
+        return v.deps
+    if isinstance(v, (tuple, frozenset)):
+        out = frozenset()
+        for a in v:
+            out |= _deps(a)
+        return out
+    return frozenset()
+
+
+def _concrete(v) -> bool:
+    if isinstance(v, (int, str, bytes, float)) or v is None:
+        return True
+    if isinstance(v, (tuple, frozenset)):
+        return all(_concrete(x) for x in v)
+    return False
+
+
+def _and3(vals):
+    vals = list(vals)
+    if any(v is False for v in vals):
+        return False
+    return True if all(v is True for v in vals) else None
+
+
+def _or3(vals):
+    vals = list(vals)
+    if any(v is True for v in vals):
+        return True
+    return False if all(v is False for v in vals) else None
+
+
+def _not3(v):
+    return None if v is None else (not v)
+
+
+class _Oracle:
+    """What a run assumes about the input: `contents[i]` = the concrete bytes the i-th read returns (otherwise the
+    read is symbolic and complete), `zero[k]` = whether the integer decoded from the bytes at stream offset k is zero."""
+
+    def __init__(self, contents=None, zero=None):
+        self.contents = dict(contents or {})
+        self.zero = dict(zero or {})
+        self.reads = set()  # indices of the reads that cover an offset the assumptions talk about
+
+    def constrained(self, deps) -> bool:
+        return any(d in ("lost", "unbound") or (isinstance(d, tuple) and d[0] == "rd" and d[1] in self.reads) for d in deps)
+
+
+_STR_METHODS = {"rstrip", "lstrip", "strip", "lower", "upper", "decode", "encode", "hex", "split", "rsplit", "partition", "rpartition", "startswith",
+                "endswith", "replace", "join", "title", "capitalize", "zfill", "ljust", "rjust", "find", "index", "count", "isdigit", "format",
+                "removeprefix", "removesuffix", "splitlines", "to_bytes", "bit_length"}
+_BUILTIN_NAMES = {"len", "int", "bool", "str", "bytes", "bytearray", "memoryview", "list", "tuple", "set", "frozenset", "dict", "sorted", "reversed",
+                  "getattr", "hasattr", "isinstance", "min", "max", "any", "all", "zip", "enumerate", "range", "hex", "repr", "format", "print", "iter",
+                  "next", "abs", "sum", "ord", "chr", "type", "callable", "id", "divmod", "map", "filter", "object",
+                  "ValueError", "IndexError", "KeyError", "TypeError", "Exception", "RuntimeError", "NotImplementedError", "AttributeError", "EOFError"}
+def sys_byteorder():
+    import sys
+
+    return sys.byteorder
+
+
+def _pure_ext():
+    import binascii
+    import struct
+
+    return {"struct.unpack": struct.unpack, "struct.pack": struct.pack, "struct.calcsize": struct.calcsize, "binascii.hexlify": binascii.hexlify,
+            "binascii.unhexlify": binascii.unhexlify, "bytes.fromhex": bytes.fromhex, "struct.unpack_from": struct.unpack_from}
+
+
+_PURE_EXT = _pure_ext()
+_CMP = {ast.Lt: lambda a, b: a < b, ast.LtE: lambda a, b: a <= b, ast.Gt: lambda a, b: a > b, ast.GtE: lambda a, b: a >= b}
+_BIN = {ast.Add: lambda a, b: a + b, ast.Sub: lambda a, b: a - b, ast.Mult: lambda a, b: a * b, ast.FloorDiv: lambda a, b: a // b, ast.Mod: lambda a, b: a % b,
+        ast.BitOr: lambda a, b: a | b, ast.BitAnd: lambda a, b: a & b, ast.BitXor: lambda a, b: a ^ b, ast.LShift: lambda a, b: a << b,
+        ast.RShift: lambda a, b: a >> b, ast.Div: lambda a, b: a / b, ast.Pow: lambda a, b: a ** b}
+
+
+class _Ev:
+    MAX_FORKS = 400
+    MAX_STEPS = 60000
+    MAX_DEPTH = 5
+
+    def __init__(self, ctx, oracle=None):
+        self.ctx = ctx
+        self.oracle = oracle or _Oracle()
+        self.nforks = 0
+        self.nsteps = 0
+        self.lambdas = {}
+        self.intercept = False
+
+    # ------------------------------------------------------------------------------------------------ entry point
+    def run(self, f, args=None):
+        """Execute package function f on symbolic parameters (or the given values): [(state, signal)] per path."""
+        st = _St()
+        env = {}
+        for p in params(f.node):
+            env[p] = (args or {}).get(p, _Par(p))
+        st.frames.append(_Frame(env, f.module.name, f, None, self._locals(f.node)))
+        st.snap = {}
+        return self.block(f.node.body, st)
+
+    @staticmethod
+    def _locals(fn):
+        out = set(params(fn)) if not isinstance(fn, ast.Lambda) else {a.arg for a in fn.args.args}
+        if not isinstance(fn, ast.Lambda):
+            for n in body_walk(fn):
+                if isinstance(n, ast.Name) and isinstance(n.ctx, ast.Store):
+                    out.add(n.id)
+        return frozenset(out)
+
+    # ------------------------------------------------------------------------------------------------ statements
+    def block(self, stmts, st):
+        live = [(st, None)]
+        for s in stmts:
+            nxt = []
+            for st1, sig in live:
+                if sig is not None:
+                    nxt.append((st1, sig))
+                else:
+                    nxt.extend(self.stmt(s, st1))
+            live = nxt
+        return live
+
+    def stmt(self, s, st):
+        self.nsteps += 1
+        if self.nsteps > self.MAX_STEPS:
+            raise _Stop("step budget exceeded")
+        if st.depth > 0:
+            # inside a callee: deterministic under the script of the statement of the analysed function that called it
+            try:
+                return self._stmt(s, st)
+            except _Raise as r:
+                return [(st, ("raise", r.what))]
+        out = []
+        pending = [[]]
+        while pending:
+            script = pending.pop()
+            work = st.fork()
+            work.script = list(script)
+            try:
+                out.extend(self._stmt(s, work))
+            except _Fork:
+                self.nforks += 1
+                if self.nforks > self.MAX_FORKS:
+                    raise _Stop("path budget exceeded")
+                pending.append(script + [False])
+                pending.append(script + [True])
+            except _Raise as r:
+                out.append((work, ("raise", r.what)))
+        return out
+
+    def decide(self, st, v, node):
+        t = self.truth(st, v)
+        if t is not None:
+            return t
+        if st.script:
+            d = st.script.pop(0)
+            # normalise the record: strip negations
+            pol, core = d, v
+            while isinstance(core, _T) and core.op == "not":
+                core, pol = core.args[0], not pol
+            st.forks.append((node, core, pol, d))
+            # what the decision says about a decoded integer: later tests of the same value agree with it
+            subj, zero = core, not pol
+            if isinstance(subj, _T) and subj.op == "eq" and any(isinstance(x, int) and not isinstance(x, bool) and x == 0 for x in subj.args):
+                subj, zero = next((x for x in subj.args if not isinstance(x, int)), None), pol
+            if isinstance(subj, _Rd):
+                subj = subj.n
+            elif isinstance(subj, _T) and subj.op == "len" and isinstance(subj.args[0], _Rd):
+                subj = subj.args[0].n
+            if isinstance(subj, _T) and subj.op == "dec":
+                st.facts[subj] = zero
+            if self.oracle.constrained(_deps(core)):
+                st.imprecise.append(f"undecided test {src(node)[:60]}")
+            return d
+        raise _Fork(v, node)
+
+    def _stmt(self, s, st):
+        if isinstance(s, ast.Expr):
+            self.ev(s.value, st)
+            return [(st, None)]
+        if isinstance(s, ast.Assign):
+            v = self.ev(s.value, st)
+            for t in s.targets:
+                self.assign(t, v, st)
+            return [(st, None)]
+        if isinstance(s, ast.AnnAssign):
+            if s.value is not None:
+                self.assign(s.target, self.ev(s.value, st), st)
+            return [(st, None)]
+        if isinstance(s, ast.AugAssign):
+            self.augassign(s, st)
+            return [(st, None)]
+        if isinstance(s, ast.If):
+            t = self.decide(st, self.ev(s.test, st), s.test)
+            return self.block(s.body if t else s.orelse, st)
+        if isinstance(s, ast.While):
+            return self._while(s, st)
+        if isinstance(s, (ast.For, ast.AsyncFor)):
+            return self._for(s, st)
+        if isinstance(s, ast.Return):
+            return [(st, ("return", self.ev(s.value, st) if s.value is not None else None))]
+        if isinstance(s, ast.Break):
+            return [(st, "break")]
+        if isinstance(s, ast.Continue):
+            return [(st, "continue")]
+        if isinstance(s, ast.Raise):
+            return [(st, ("raise", dotted(s.exc.func) if isinstance(s.exc, ast.Call) else (dotted(s.exc) if s.exc is not None else None)))]
+        if isinstance(s, (ast.Pass, ast.Global, ast.Nonlocal, ast.Import, ast.ImportFrom, ast.Delete)):
+            return [(st, None)]
+        if isinstance(s, ast.Assert):
+            return [(st, None)]
+        if isinstance(s, (ast.FunctionDef, ast.AsyncFunctionDef)):
+            self.lambdas[id(s)] = (s, st.frames[-1])
+            st.frames[-1].env[s.name] = _Fn("lambda", id(s))
+            return [(st, None)]
+        if isinstance(s, ast.With):
+            for it in s.items:
+                v = self.ev(it.context_expr, st)
+                if it.optional_vars is not None:
+                    self.assign(it.optional_vars, v, st)
+            return self.block(s.body, st)
+        if isinstance(s, ast.Try):
+            # the modelled operations do not raise on well-formed input: the handlers are not entered
+            res = self.block(s.body, st)
+            out = []
+            for st1, sig in res:
+                if sig is None and s.orelse:
+                    out.extend(self.block(s.orelse, st1))
+                else:
+                    out.append((st1, sig))
+            if s.finalbody:
+                out2 = []
+                for st1, sig in out:
+                    for st2, sig2 in self.block(s.finalbody, st1):
+                        out2.append((st2, sig2 if sig2 is not None else sig))
+                out = out2
+            return out
+        raise _Stop(f"statement {type(s).__name__} is not modelled")
+
+    def _enter_loop(self, s, st):
+        if st.depth == 0 and st.in_loop is None:
+            st.in_loop = s
+            st.snap = {}
+            for o in st.heap.values():
+                if isinstance(o, _HList):
+                    st.snap[o.root] = max(st.snap.get(o.root, 0), len(o.items))
+
+    def _loop_results(self, s, res):
+        out = []
+        for st1, sig in res:
+            if sig == "break":
+                if st1.in_loop is s:
+                    st1.events.append(("loop-exit", s))
+                out.append((st1, None))
+            elif sig is None or sig == "continue":
+                out.append((st1, ("next", s)))
             else:
-                vo = origin(f.node, val)
-                sel = vo.args[0] if isinstance(vo, ast.Call) and isinstance(vo.func, ast.Attribute) and vo.func.attr == "get" and role_name.get(dotted(vo.func.value)) == "BUILD_MAP" and vo.args else None
-                so = origin(f.node, sel) if sel is not None else None
-                ok = nm_ok and isinstance(so, ast.Call) and _is_be32(ctx, f, so) == (4, "big", False)
-                detail = f"appends ({src(nm)}, {src(vo)}); selector is a 4-byte big-endian read={ok}"
-        ctx.ob("R2", "AGREE", f, f"branch {cls}", ok, detail, st)
-    # bindings in SETTING_TO_PRETTYFUNC
-    tbl = ctx.repo.const("beacon.SETTING_TO_PRETTYFUNC")
-    ent = {dotted(k): v for k, v in zip(tbl.keys, tbl.values)} if isinstance(tbl, ast.Dict) else {}
-    req = ent.get("BeaconSetting.SETTING_C2_REQUEST")
-    post = ent.get("BeaconSetting.SETTING_C2_POSTREQ")
-    ctx.ob("R2", "AGREE", "beacon.py::SETTING_TO_PRETTYFUNC", "SETTING_C2_REQUEST", dotted(req) == "parse_transform_binary", f"bound to {src(req)} (default build 'metadata')", req)
-    p_ok = isinstance(post, ast.Call) and dotted(post.func) in ("functools.partial", "partial") and post.args and dotted(post.args[0]) == "parse_transform_binary" and is_const(kwarg(post, "build"), "id")
-    ctx.ob("R2", "AGREE", "beacon.py::SETTING_TO_PRETTYFUNC", "SETTING_C2_POSTREQ", bool(p_ok), f"bound to {src(post)} (must select build 'id')", post)
-    rec = ent.get("BeaconSetting.SETTING_C2_RECOVER")
-    ctx.ob("R2", "AGREE", "beacon.py::SETTING_TO_PRETTYFUNC", "SETTING_C2_RECOVER", dotted(rec) == "parse_recover_binary", f"bound to {src(rec)}", rec)
+                out.append((st1, sig))
+        return out
 
+    def _while(self, s, st):
+        self._enter_loop(s, st)
+        t = self.decide(st, self.ev(s.test, st), s.test)
+        if not t:
+            if st.in_loop is s:
+                st.events.append(("loop-exit", s))
+            return self.block(s.orelse, st) if s.orelse else [(st, None)]
+        return self._loop_results(s, self.block(s.body, st))
 
-def r3(ctx):
-    n = 0
-    for fq in ("beacon.parse_transform_binary", "beacon.parse_recover_binary", "beacon.parse_process_injection_transform_steps"):
-        f = ctx.repo.func(fq)
-        for c in fn_calls(f.node):
-            w = _is_be32(ctx, f, c)
-            if w is None:
+    def _for(self, s, st):
+        it = s.iter
+        # for x in iter(callable, sentinel): one representative iteration, like `while True`
+        if isinstance(it, ast.Call) and len(it.args) == 2 and not it.keywords:
+            fv = self.ev(it.func, st)
+            if fv == _Fn("ext", "iter"):
+                self._enter_loop(s, st)
+                fn = self.ev(it.args[0], st)
+                sentinel = self.ev(it.args[1], st)
+                v = self.call(fn, [], {}, st, it)
+                done = self.decide(st, self.cmp_eq(st, v, sentinel), it)
+                if done:
+                    if st.in_loop is s:
+                        st.events.append(("loop-exit", s))
+                    return self.block(s.orelse, st) if s.orelse else [(st, None)]
+                self.assign(s.target, v, st)
+                return self._loop_results(s, self.block(s.body, st))
+        seq = self.iterate(self.ev(it, st), st)
+        if seq is None:
+            raise _Stop(f"loop over a collection that is not known: {src(it)[:60]}")
+        live = [(st, None)]
+        for x in seq:
+            nxt = []
+            for st1, sig in live:
+                if sig is not None:
+                    nxt.append((st1, sig))
+                    continue
+                self.assign(s.target, x, st1)
+                for st2, sig2 in self.block(s.body, st1):
+                    if sig2 == "continue":
+                        sig2 = None
+                    nxt.append((st2, sig2))
+            live = nxt
+        out = []
+        for st1, sig in live:
+            if sig == "break":
+                out.append((st1, None))
+            elif sig is None and s.orelse:
+                out.extend(self.block(s.orelse, st1))
+            else:
+                out.append((st1, sig))
+        return out
+
+    def iterate(self, v, st):
+        """The elements of a collection value in iteration order, or None when they are not known."""
+        if isinstance(v, (tuple, list)):
+            return list(v)
+        if isinstance(v, frozenset):
+            return sorted(v, key=repr)
+        if isinstance(v, (str,)):
+            return list(v)
+        if isinstance(v, bytes):
+            return list(v)
+        if isinstance(v, _EnT):
+            return [_En(v.tname, n, val) for n, val in self.enum_of(v).members]
+        if isinstance(v, _Ref):
+            o = st.heap.get(v.oid)
+            if isinstance(o, _HList) and not o.opaque:
+                return list(o.items)
+            if isinstance(o, _HSet):
+                return sorted(o.items, key=repr)
+            if isinstance(o, _HDict):
+                return [k for k, _v in o.pairs]
+        if isinstance(v, _T) and v.op == "seq":
+            return list(v.args)
+        return None
+
+    # ------------------------------------------------------------------------------------------------ assignment
+    def assign(self, t, v, st):
+        if isinstance(t, ast.Name):
+            st.frames[-1].env[t.id] = v
+            return
+        if isinstance(t, (ast.Tuple, ast.List)):
+            seq = self.iterate(v, st)
+            if seq is None or len(seq) != len(t.elts) or any(isinstance(e, ast.Starred) for e in t.elts):
+                for i, e in enumerate(t.elts):
+                    if isinstance(e, ast.Starred):
+                        e = e.value
+                    self.assign(e, _T("item", (v, i)) if not isinstance(v, _Unk) else v, st)
+                return
+            for e, x in zip(t.elts, seq):
+                self.assign(e, x, st)
+            return
+        if isinstance(t, ast.Subscript):
+            base = self.ev(t.value, st)
+            key = self.ev(t.slice, st) if not isinstance(t.slice, ast.Slice) else None
+            o = st.heap.get(base.oid) if isinstance(base, _Ref) else None
+            if isinstance(o, _HDict) and key is not None and self.hashable_known(key):
+                for p in o.pairs:
+                    if self.key_eq(p[0], key) is True:
+                        p[1] = v
+                        return
+                o.pairs.append([key, v])
+                return
+            if isinstance(o, _HList):
+                o.opaque = True
+                st.events.append(("reorder", o.root, "item assignment"))
+                return
+            return
+        if isinstance(t, ast.Attribute):
+            return
+        raise _Stop(f"assignment target {type(t).__name__} is not modelled")
+
+    def augassign(self, s, st):
+        cur = self.ev(s.target, st) if isinstance(s.target, (ast.Name, ast.Attribute, ast.Subscript)) else None
+        val = self.ev(s.value, st)
+        o = st.heap.get(cur.oid) if isinstance(cur, _Ref) else None
+        if isinstance(o, _HList) and isinstance(s.op, ast.Add):
+            self.list_extend(o, val, st)
+            return
+        if isinstance(o, _HSym) and isinstance(s.op, ast.Sub):
+            fs = self.as_set(val, st)
+            if fs is None:
+                raise _Stop("set difference with a set that is not known")
+            self.sym_sub(o, fs, st)
+            return
+        if isinstance(o, _HSet) and isinstance(s.op, (ast.Sub, ast.BitOr, ast.BitAnd)):
+            fs = self.as_set(val, st)
+            if fs is None:
+                raise _Stop("set update with a set that is not known")
+            o.items = set(o.items - fs if isinstance(s.op, ast.Sub) else (o.items | fs if isinstance(s.op, ast.BitOr) else o.items & fs))
+            return
+        self.assign(s.target, self.binop(s.op, cur, val, st, s), st)
+
+    # ------------------------------------------------------------------------------------------------ names
+    def lookup(self, name, st):
+        fr = st.frames[-1]
+        f2 = fr
+        while f2 is not None:
+            if name in f2.env:
+                return f2.env[name]
+            if name in f2.locals:
+                return _Unk(frozenset({"unbound"}), f"{name} is not bound on this path")
+            f2 = f2.parent
+        return self.global_name(fr.mod, name, st)
+
+    def enum_of(self, t: _EnT):
+        return self.ctx.cdefs(t.mod)[t.var].enums[t.tname]
+
+    def global_name(self, mod, name, st, depth=0):
+        key = (mod, name)
+        if key in st.modcache:
+            return st.modcache[key]
+        v = self._global_name(mod, name, st, depth)
+        st.modcache[key] = v
+        return v
+
+    def _sym_value(self, s, st, depth):
+        rs = self.ctx.rs
+        if s.kind in ("func", "partial"):
+            m = self.ctx.repo.modules.get(s.module)
+            f = m.funcs.get(s.name) if m else None
+            if f is None:
+                return _Unk(_LOST, f"function {s.fq}")
+            bound = []
+            for k, node in (s.bound or {}).items():
+                c = _c(node)
+                bound.append((k, c if (c is not None or is_const(node, None)) else _Unk(_LOST, "bound argument")))
+            return _Fn("func", f, tuple(bound), ())
+        if s.kind == "class":
+            return _Fn("class", s.fq)
+        if s.kind == "module":
+            return _Fn("pkgmod", s.module)
+        if s.kind == "struct":
+            cd = self.ctx.cdefs(s.module).get(s.cdef_var)
+            if cd is not None and s.name in cd.enums:
+                return _EnT(s.name, s.module, s.cdef_var)
+            return _Fn("struct", s.name, s.module, s.cdef_var)
+        if s.kind == "external":
+            return _Fn("ext", s.name)
+        return None
+
+    def _global_name(self, mod, name, st, depth):
+        rs = self.ctx.rs
+        s = rs.lookup(mod, name)
+        if s is not None and s.kind != "const":
+            v = self._sym_value(s, st, depth)
+            if v is not None:
+                return v
+        m = self.ctx.repo.modules.get(s.module if (s is not None and s.kind == "const" and s.module) else mod)
+        cname = s.name if (s is not None and s.kind == "const" and s.name) else name
+        if m is not None and cname in m.consts and depth < 4:
+            saved = st.frames
+            st.frames = [_Frame({}, m.name)]
+            saved_depth = st.depth
+            st.depth += 1
+            try:
+                return self.ev(m.consts[cname], st)
+            except (_Stop, _Raise) as e:
+                return _Unk(_LOST, f"module constant {cname}: {e}")
+            finally:
+                st.frames = saved
+                st.depth = saved_depth
+        if name in _BUILTIN_NAMES:
+            return _Fn("ext", name)
+        if name in ("True", "False", "None"):
+            return {"True": True, "False": False, "None": None}[name]
+        return _Unk(_LOST, f"name {name}")
+
+    # ------------------------------------------------------------------------------------------------ truth / equality
+    def nonzero(self, v, st=None):
+        """three-valued `v != 0` for an integer-valued value (st: the facts decided earlier on the path)"""
+        if isinstance(v, bool) or isinstance(v, int):
+            return v != 0
+        if isinstance(v, _En):
+            return self.nonzero(v.value, st)
+        if isinstance(v, _T) and v.op == "dec":
+            if st is not None and v in st.facts:
+                return not st.facts[v]
+            srcv, lo = v.args[0], 0
+            if isinstance(srcv, _T) and srcv.op == "slice" and len(srcv.args) == 3:
+                srcv, lo = srcv.args[0], srcv.args[1]
+            if isinstance(srcv, _Rd) and srcv.pos is not None and (srcv.pos + lo) in self.oracle.zero:
+                return not self.oracle.zero[srcv.pos + lo]
+        return None
+
+    def truth(self, st, v):
+        if isinstance(v, bool):
+            return v
+        if _concrete(v):
+            return bool(v)
+        if isinstance(v, tuple):
+            return len(v) > 0
+        if isinstance(v, frozenset):
+            return len(v) > 0
+        if isinstance(v, _Rd):
+            return self.nonzero(v.n, st)
+        if isinstance(v, _En):
+            return self.nonzero(v.value, st)
+        if isinstance(v, (_Fn, _EnT)):
+            return True
+        if isinstance(v, _Ref):
+            o = st.heap.get(v.oid)
+            if isinstance(o, _HList):
+                return True if (o.items and not o.opaque) else None
+            if isinstance(o, _HSet):
+                return bool(o.items)
+            if isinstance(o, _HDict):
+                return bool(o.pairs)
+            if isinstance(o, _HStream):
+                return True
+            return None
+        if isinstance(v, _T):
+            if v.op == "not":
+                return _not3(self.truth(st, v.args[0]))
+            if v.op == "dec":
+                return self.nonzero(v, st)
+            if v.op == "eq":
+                return self.eq3(st, v.args[0], v.args[1])
+            if v.op == "len":
+                return self.truth(st, v.args[0])
+            if v.op == "seq":
+                return len(v.args) > 0
+        return None
+
+    def key_eq(self, a, b):
+        """Do two values denote the same dict key / set element (hash AND equality)?  A cstruct enum member hashes as
+        (class, name, value): it is never found under a plain int key and vice versa."""
+        if isinstance(a, _En) or isinstance(b, _En):
+            if isinstance(a, _En) and isinstance(b, _En):
+                if a.tname != b.tname:
+                    return False
+                if _concrete(a.value) and _concrete(b.value):
+                    return a.value == b.value and a.name == b.name
+                return True if a == b else None
+            other = b if isinstance(a, _En) else a
+            if _concrete(other):
+                return False
+            return None
+        if _concrete(a) and _concrete(b):
+            try:
+                return a == b and hash(a) == hash(b)
+            except TypeError:
+                return None
+        return True if a == b else None
+
+    def hashable_known(self, k):
+        return _concrete(k) or (isinstance(k, _En) and _concrete(k.value))
+
+    def eq3(self, st, a, b):
+        if isinstance(a, _En) or isinstance(b, _En):
+            if isinstance(a, _En) and isinstance(b, _En):
+                if a.tname != b.tname:
+                    return False
+                return self.eq3(st, a.value, b.value)
+            e, o = (a, b) if isinstance(a, _En) else (b, a)
+            if o is None or isinstance(o, (str, bytes, tuple)):
+                return False
+            return self.eq3(st, e.value, o)
+        if _concrete(a) and _concrete(b):
+            return a == b
+        if isinstance(a, tuple) and isinstance(b, tuple):
+            if len(a) != len(b):
+                return False
+            return _and3(self.eq3(st, x, y) for x, y in zip(a, b))
+        if isinstance(a, tuple) != isinstance(b, tuple) and (isinstance(a, tuple) or isinstance(b, tuple)):
+            o = b if isinstance(a, tuple) else a
+            if _concrete(o) or isinstance(o, (_Rd, _En)):
+                return False
+            return None
+        if a == b and not isinstance(a, _Unk):
+            return True
+        # integers against zero
+        for x, y in ((a, b), (b, a)):
+            if isinstance(y, int) and not isinstance(y, bool) and isinstance(x, _T) and x.op == "dec":
+                nz = self.nonzero(x, st)
+                if y == 0 and nz is not None:
+                    return not nz
+                if y != 0 and nz is False:
+                    return False
+                if y < 0 and x.args[2] is False:
+                    return False
+                return None
+            if isinstance(y, bytes) and isinstance(x, _Rd):
+                if _concrete(x.n):
+                    if x.n != len(y):
+                        return False
+                    return None
+                if len(y) == 0:
+                    return _not3(self.nonzero(x.n, st))
+                return None
+            if y is None and isinstance(x, (_Rd, _Ref, _Fn, _EnT)):
+                return False
+            if y is None and isinstance(x, _T) and x.op in ("dec", "fstr", "len", "slice"):
+                return False
+        if isinstance(a, _Ref) and isinstance(b, _Ref):
+            oa, ob = st.heap.get(a.oid), st.heap.get(b.oid)
+            if isinstance(oa, _HList) and isinstance(ob, _HList) and not oa.opaque and not ob.opaque:
+                if len(oa.items) != len(ob.items):
+                    return False
+                return _and3(self.eq3(st, x, y) for x, y in zip(oa.items, ob.items))
+        fa, fb = self.as_set(a, st), self.as_set(b, st)
+        if fa is not None and fb is not None and (isinstance(a, (_Ref, frozenset)) and isinstance(b, (_Ref, frozenset))):
+            return fa == fb
+        return None
+
+    def cmp_eq(self, st, a, b):
+        r = self.eq3(st, a, b)
+        return r if r is not None else _T("eq", (a, b))
+
+    def contains(self, st, x, c, node):
+        """three-valued / symbolic `x in c`"""
+        if isinstance(c, (tuple,)):
+            r = _or3(self.eq3(st, x, e) for e in c)
+            return r if r is not None else _T("in", (x, c))
+        if isinstance(c, frozenset):
+            r = _or3(self.key_eq(x, e) for e in c)
+            return r if r is not None else _T("in", (x, c))
+        if isinstance(c, (str, bytes)) and _concrete(x):
+            try:
+                return x in c
+            except TypeError:
+                return False
+        if isinstance(c, _EnT):
+            en = self.enum_of(c)
+            if isinstance(x, _En):
+                return x.tname == c.tname
+            if isinstance(x, int):
+                return any(v == x for _n, v in en.members)
+        if isinstance(c, _Ref):
+            o = st.heap.get(c.oid)
+            if isinstance(o, _HList) and not o.opaque:
+                r = _or3(self.eq3(st, x, e) for e in o.items)
+                return r if r is not None else _T("in", (x, c))
+            if isinstance(o, _HSet):
+                r = _or3(self.key_eq(x, e) for e in o.items)
+                return r if r is not None else _T("in", (x, c))
+            if isinstance(o, _HDict):
+                r = _or3(self.key_eq(x, k) for k, _v in o.pairs)
+                return r if r is not None else _T("in", (x, c))
+            if isinstance(o, _HSym) and o.elems is not None:
+                hits = [cond for e, cond in o.elems.items() if self.key_eq(x, e) is True]
+                if not hits and all(self.key_eq(x, e) is False for e in o.elems):
+                    return False
+                if hits and hits[0] is True:
+                    return True
+        return _T("in", (x, c))
+
+    # ------------------------------------------------------------------------------------------------ sets
+    def as_set(self, v, st):
+        if isinstance(v, frozenset):
+            return v
+        if isinstance(v, _Ref):
+            o = st.heap.get(v.oid)
+            if isinstance(o, _HSet):
+                return frozenset(o.items)
+        return None
+
+    def sym_sub(self, o, fs, st):
+        o.subs.append(fs)
+        if o.elems is not None:
+            for e in list(o.elems):
+                if any(self.key_eq(e, x) is True for x in fs):
+                    del o.elems[e]
+        st.events.append(("sub", o.root, fs))
+
+    def superset(self, st, big, small, node):
+        """value of `big >= small` for set-like values"""
+        ob = st.heap.get(big.oid) if isinstance(big, _Ref) else None
+        fs_small = self.as_set(small, st)
+        if isinstance(ob, _HSym) and fs_small is not None:
+            r = _T("superset", (ob.root, fs_small, len(st.events)))
+            if ob.elems is not None:
+                conds = []
+                for x in fs_small:
+                    hit = [c for e, c in ob.elems.items() if self.key_eq(e, x) is True]
+                    if not hit:
+                        r = False
+                        break
+                    conds.append(hit[0])
+                if r is not False and all(c is True for c in conds):
+                    r = True
+            st.events.append(("superset", ob.root, fs_small, r))
+            return r
+        fs_big = self.as_set(big, st)
+        if fs_big is not None and fs_small is not None:
+            return fs_big >= fs_small
+        os_ = st.heap.get(small.oid) if isinstance(small, _Ref) else None
+        if isinstance(os_, _HSym) and fs_big is not None and os_.elems is not None:
+            if all(any(self.key_eq(e, x) is True for x in fs_big) for e in os_.elems):
+                return True
+        return _T("cmp", (">=", big, small))
+
+    def list_extend(self, o, val, st):
+        seq = None
+        if isinstance(val, _Ref) and isinstance(st.heap.get(val.oid), _HSym):
+            hs = st.heap[val.oid]
+            o.items.append(_T("rest", (hs.root, tuple(hs.subs))))
+            return
+        seq = self.iterate(val, st)
+        if seq is None:
+            o.items.append(_T("*", (val,)))
+        else:
+            o.items.extend(seq)
+
+    # ------------------------------------------------------------------------------------------------ expressions
+    def ev(self, e, st):
+        self.nsteps += 1
+        if self.nsteps > self.MAX_STEPS:
+            raise _Stop("step budget exceeded")
+        m = getattr(self, "ev_" + type(e).__name__, None)
+        if m is None:
+            raise _Stop(f"expression {type(e).__name__} is not modelled")
+        return m(e, st)
+
+    def ev_Constant(self, e, st):
+        return e.value
+
+    def ev_Name(self, e, st):
+        return self.lookup(e.id, st)
+
+    def ev_Tuple(self, e, st):
+        out = []
+        for x in e.elts:
+            if isinstance(x, ast.Starred):
+                seq = self.iterate(self.ev(x.value, st), st)
+                if seq is None:
+                    return _Unk(_LOST, "starred")
+                out.extend(seq)
+            else:
+                out.append(self.ev(x, st))
+        return tuple(out)
+
+    def ev_List(self, e, st):
+        items = self.ev_Tuple(e, st)
+        if isinstance(items, _Unk):
+            return items
+        return st.alloc(e, _HList(items), "list")
+
+    def ev_Set(self, e, st):
+        items = self.ev_Tuple(e, st)
+        if isinstance(items, _Unk):
+            return items
+        if not all(self.hashable_known(x) for x in items):
+            return _Unk(_LOST, "set of values that are not known")
+        return st.alloc(e, _HSet(items), "set")
+
+    def ev_Dict(self, e, st):
+        pairs = []
+        for k, v in zip(e.keys, e.values):
+            if k is None:
+                return _Unk(_LOST, "dict unpacking")
+            pairs.append([self.ev(k, st), self.ev(v, st)])
+        return st.alloc(e, _HDict(pairs), "dict")
+
+    def ev_JoinedStr(self, e, st):
+        parts = []
+        for p in e.values:
+            if isinstance(p, ast.Constant):
+                parts.append(p.value)
+            else:
+                v = self.ev(p.value, st)
+                spec = self.ev(p.format_spec, st) if p.format_spec is not None else ""
+                parts.append(self.fmt_value(v, p.conversion, spec))
+        return self.join_parts(parts)
+
+    def fmt_value(self, v, conv, spec):
+        if isinstance(v, (int, str)) and not isinstance(v, bool) and isinstance(spec, str) and conv in (-1, None):
+            try:
+                return format(v, spec)
+            except Exception:
+                pass
+        return _T("fv", (v, conv if conv is not None else -1, spec))
+
+    @staticmethod
+    def join_parts(parts):
+        out = []
+        for p in parts:
+            if isinstance(p, str) and out and isinstance(out[-1], str):
+                out[-1] += p
+            elif p != "":
+                out.append(p)
+        if not out:
+            return ""
+        if len(out) == 1 and isinstance(out[0], str):
+            return out[0]
+        return _T("fstr", tuple(out))
+
+    def ev_FormattedValue(self, e, st):
+        return self.fmt_value(self.ev(e.value, st), e.conversion, self.ev(e.format_spec, st) if e.format_spec is not None else "")
+
+    def ev_UnaryOp(self, e, st):
+        v = self.ev(e.operand, st)
+        if isinstance(e.op, ast.Not):
+            t = self.truth(st, v)
+            return (not t) if t is not None else _T("not", (v,))
+        if _concrete(v) and v is not None:
+            try:
+                return {ast.USub: lambda x: -x, ast.UAdd: lambda x: +x, ast.Invert: lambda x: ~x}[type(e.op)](v)
+            except Exception:
+                return _Unk(_LOST, "unary")
+        return _T("un" + type(e.op).__name__, (v,))
+
+    def ev_BoolOp(self, e, st):
+        v = None
+        for i, x in enumerate(e.values):
+            v = self.ev(x, st)
+            if i == len(e.values) - 1:
+                return v
+            t = self.decide(st, v, x)
+            if isinstance(e.op, ast.And) and not t:
+                return v
+            if isinstance(e.op, ast.Or) and t:
+                return v
+        return v
+
+    def ev_IfExp(self, e, st):
+        t = self.decide(st, self.ev(e.test, st), e.test)
+        return self.ev(e.body if t else e.orelse, st)
+
+    def ev_NamedExpr(self, e, st):
+        v = self.ev(e.value, st)
+        self.assign(e.target, v, st)
+        return v
+
+    def ev_Lambda(self, e, st):
+        self.lambdas[id(e)] = (e, st.frames[-1])
+        return _Fn("lambda", id(e))
+
+    def ev_Starred(self, e, st):
+        return _Unk(_LOST, "starred")
+
+    def ev_Compare(self, e, st):
+        left = self.ev(e.left, st)
+        res = True
+        for op, rn in zip(e.ops, e.comparators):
+            right = self.ev(rn, st)
+            r = self.compare(op, left, right, st, e)
+            if r is False:
+                return False
+            if r is not True:
+                if res is not True:
+                    return _T("and", (res, r))
+                res = r
+            left = right
+        return res
+
+    def compare(self, op, a, b, st, node):
+        if isinstance(op, ast.Eq):
+            return self.cmp_eq(st, a, b)
+        if isinstance(op, ast.NotEq):
+            r = self.eq3(st, a, b)
+            return (not r) if r is not None else _T("not", (_T("eq", (a, b)),))
+        if isinstance(op, (ast.Is, ast.IsNot)):
+            r = None
+            if a is None or b is None:
+                o = b if a is None else a
+                if o is None:
+                    r = True
+                elif _concrete(o) or isinstance(o, (_Rd, _En, _Ref, _Fn, _EnT, tuple, frozenset)) or (isinstance(o, _T) and o.op in ("dec", "fstr", "len", "slice", "fv")):
+                    r = False
+            elif isinstance(a, bool) and isinstance(b, bool):
+                r = a is b
+            elif isinstance(a, _Ref) and isinstance(b, _Ref):
+                r = a.oid == b.oid
+            elif isinstance(a, _En) and isinstance(b, _En) and _concrete(a.value) and _concrete(b.value):
+                r = a == b
+            if r is None:
+                v = _T("is", (a, b))
+                return v if isinstance(op, ast.Is) else _T("not", (v,))
+            return r if isinstance(op, ast.Is) else (not r)
+        if isinstance(op, (ast.In, ast.NotIn)):
+            r = self.contains(st, a, b, node)
+            if isinstance(op, ast.In):
+                return r
+            return (not r) if isinstance(r, bool) else _T("not", (r,))
+        if type(op) in _CMP:
+            # set comparisons
+            sa = isinstance(a, _Ref) and isinstance(st.heap.get(a.oid), (_HSet, _HSym))
+            sb = isinstance(b, _Ref) and isinstance(st.heap.get(b.oid), (_HSet, _HSym))
+            if (sa or isinstance(a, frozenset)) and (sb or isinstance(b, frozenset)) and isinstance(op, (ast.GtE, ast.LtE)):
+                return self.superset(st, a, b, node) if isinstance(op, ast.GtE) else self.superset(st, b, a, node)
+            if isinstance(a, _En):
+                a = a.value
+            if isinstance(b, _En):
+                b = b.value
+            if _concrete(a) and _concrete(b) and a is not None and b is not None:
+                try:
+                    return bool(_CMP[type(op)](a, b))
+                except Exception:
+                    raise _Raise("TypeError")
+            # an unsigned decode is never negative
+            for x, y, o2 in ((a, b, op), (b, a, {ast.Lt: ast.Gt, ast.Gt: ast.Lt, ast.LtE: ast.GtE, ast.GtE: ast.LtE}[type(op)]())):
+                if isinstance(x, _T) and x.op in ("dec", "len") and isinstance(y, int):
+                    unsigned = x.op == "len" or x.args[2] is False
+                    if unsigned and y <= 0 and isinstance(o2, ast.GtE):
+                        return True
+                    if unsigned and y <= 0 and isinstance(o2, ast.Lt):
+                        return False
+                    if unsigned and y == 0 and isinstance(o2, (ast.Gt, ast.LtE)):
+                        nz = self.nonzero(x, st) if x.op == "dec" else self.truth(st, x)
+                        if nz is not None:
+                            return nz if isinstance(o2, ast.Gt) else (not nz)
+            return _T("cmp", (type(op).__name__, a, b))
+        return _T("cmp", (type(op).__name__, a, b))
+
+    def ev_BinOp(self, e, st):
+        return self.binop(e.op, self.ev(e.left, st), self.ev(e.right, st), st, e)
+
+    def binop(self, op, a, b, st, node):
+        if isinstance(a, _En) and not isinstance(op, ast.Mod):
+            a = a.value
+        if isinstance(b, _En) and not isinstance(a, str):
+            b = b.value
+        # %-formatting and str/bytes concatenation with symbolic parts
+        if isinstance(op, ast.Mod) and isinstance(a, str):
+            return self.percent_format(a, b, st)
+        if _concrete(a) and _concrete(b) and a is not None and b is not None and not isinstance(a, (tuple, frozenset)) and type(op) in _BIN:
+            try:
+                if isinstance(op, (ast.Mult, ast.LShift, ast.Pow)) and isinstance(b, int) and abs(b) > 1 << 16:
+                    return _Unk(_LOST, "large")
+                return _BIN[type(op)](a, b)
+            except Exception:
+                raise _Raise("ArithmeticError")
+        if isinstance(a, tuple) and isinstance(b, tuple) and isinstance(op, ast.Add):
+            return a + b
+        if isinstance(op, ast.Add) and (isinstance(a, (str, _T)) and isinstance(b, (str, _T))) and (isinstance(a, str) or a.op in ("fstr", "fv")) and (isinstance(b, str) or b.op in ("fstr", "fv")):
+            pa = list(a.args) if isinstance(a, _T) and a.op == "fstr" else [a]
+            pb = list(b.args) if isinstance(b, _T) and b.op == "fstr" else [b]
+            return self.join_parts(pa + pb)
+        ra = st.heap.get(a.oid) if isinstance(a, _Ref) else None
+        rb = st.heap.get(b.oid) if isinstance(b, _Ref) else None
+        if isinstance(ra, _HList) and isinstance(op, ast.Add):
+            new = _HList(ra.items, ra.root, ra.opaque)
+            self.list_extend(new, b, st)
+            return st.alloc(node, new, "list")
+        # set algebra
+        if isinstance(op, (ast.BitOr, ast.BitAnd, ast.Sub, ast.BitXor)):
+            fa, fb = self.as_set(a, st), self.as_set(b, st)
+            if fa is not None and fb is not None:
+                r = {ast.BitOr: fa | fb, ast.BitAnd: fa & fb, ast.Sub: fa - fb, ast.BitXor: fa ^ fb}[type(op)]
+                return st.alloc(node, _HSet(r), "set")
+            if isinstance(ra, _HSym) and fb is not None and isinstance(op, ast.Sub):
+                new = ra.copy()
+                self.sym_sub(new, fb, st)
+                return st.alloc(node, new, "sym")
+        return _T("bin" + type(op).__name__, (a, b))
+
+    def percent_format(self, tmpl, arg, st):
+        args = list(arg) if isinstance(arg, tuple) else [arg]
+        if all(_concrete(x) for x in args):
+            try:
+                return tmpl % (tuple(args) if isinstance(arg, tuple) else arg)
+            except Exception:
+                raise _Raise("TypeError")
+        import re
+
+        parts, pos, i = [], 0, 0
+        for mm in re.finditer(r"%(?:\((\w+)\))?([#0\- +]*\d*(?:\.\d+)?)([diouxXeEfFgGcrsa%])", tmpl):
+            parts.append(tmpl[pos:mm.start()].replace("%%", "%"))
+            pos = mm.end()
+            if mm.group(3) == "%":
+                parts.append("%")
                 continue
+            if mm.group(1) or i >= len(args):
+                return _T("bin%", (tmpl, arg))
+            parts.append(_T("fv", (args[i], -1, mm.group(2) + mm.group(3))))
+            i += 1
+        parts.append(tmpl[pos:])
+        return self.join_parts(parts)
+
+    def str_format(self, tmpl, args, kwargs):
+        import string
+
+        parts, auto = [], 0
+        try:
+            fields = list(string.Formatter().parse(tmpl))
+        except ValueError:
+            return _T("meth:format", (tmpl,) + tuple(args))
+        for lit, fname, spec, conv in fields:
+            parts.append(lit)
+            if fname is None:
+                continue
+            if fname == "":
+                key = auto
+                auto += 1
+            elif fname.isdigit():
+                key = int(fname)
+            else:
+                key = fname
+            if isinstance(key, int):
+                if key >= len(args):
+                    return _T("meth:format", (tmpl,) + tuple(args))
+                v = args[key]
+            else:
+                if key not in kwargs:
+                    return _T("meth:format", (tmpl,) + tuple(args))
+                v = kwargs[key]
+            if spec and "{" in spec:
+                return _T("meth:format", (tmpl,) + tuple(args))
+            parts.append(self.fmt_value(v, {"s": 115, "r": 114, "a": 97}.get(conv, -1) if conv else -1, spec or ""))
+        return self.join_parts(parts)
+
+    def ev_Subscript(self, e, st):
+        base = self.ev(e.value, st)
+        if isinstance(e.slice, ast.Slice):
+            lo = self.ev(e.slice.lower, st) if e.slice.lower is not None else None
+            hi = self.ev(e.slice.upper, st) if e.slice.upper is not None else None
+            step = self.ev(e.slice.step, st) if e.slice.step is not None else None
+            return self.slice(base, lo, hi, step, st, e)
+        key = self.ev(e.slice, st)
+        return self.getitem(base, key, st, e)
+
+    def slice(self, base, lo, hi, step, st, node):
+        if _concrete(base) and base is not None and all(x is None or isinstance(x, int) for x in (lo, hi, step)):
+            try:
+                return base[lo:hi:step]
+            except Exception:
+                raise _Raise("TypeError")
+        if isinstance(base, tuple) and all(x is None or isinstance(x, int) for x in (lo, hi, step)):
+            return base[lo:hi:step]
+        if isinstance(base, _Rd) and step is None and lo in (None, 0):
+            if hi is None:
+                return base
+            if isinstance(hi, int) and isinstance(base.n, int) and hi >= base.n >= 0:
+                return base
+            if isinstance(hi, int) and hi >= 0:
+                return _T("slice", (base, 0, hi))
+        if isinstance(base, _Rd) and step is None and isinstance(lo, int) and isinstance(hi, int) and isinstance(base.n, int) and 0 <= lo <= hi <= base.n:
+            return _T("slice", (base, lo, hi))
+        if isinstance(base, _Ref):
+            o = st.heap.get(base.oid)
+            if isinstance(o, _HList) and not o.opaque and all(x is None or isinstance(x, int) for x in (lo, hi, step)):
+                return st.alloc(node, _HList(o.items[lo:hi:step], o.root if (lo in (None, 0) and hi is None and step is None) else None), "list")
+        return _T("slice", (base, lo, hi, step))
+
+    def getitem(self, base, key, st, node):
+        if isinstance(base, (tuple, str, bytes)) and isinstance(key, int) and not isinstance(key, bool):
+            try:
+                return base[key]
+            except IndexError:
+                raise _Raise("IndexError")
+        if isinstance(base, _EnT) and isinstance(key, str):
+            for n, v in self.enum_of(base).members:
+                if n == key:
+                    return _En(base.tname, n, v)
+            raise _Raise("KeyError")
+        if isinstance(base, _Ref):
+            o = st.heap.get(base.oid)
+            if isinstance(o, _HList) and not o.opaque and isinstance(key, int):
+                try:
+                    return o.items[key]
+                except IndexError:
+                    raise _Raise("IndexError")
+            if isinstance(o, _HDict):
+                rs = [(self.key_eq(k, key), v) for k, v in o.pairs]
+                for r, v in rs:
+                    if r is True:
+                        return v
+                if all(r is False for r, _v in rs):
+                    raise _Raise("KeyError")
+                return _T("getitem", (base, key))
+        if isinstance(base, _Par) and isinstance(key, str):
+            return _T("field", (base, key))
+        return _T("getitem", (base, key))
+
+    def ev_Attribute(self, e, st):
+        base = self.ev(e.value, st)
+        return self.getattr(base, e.attr, st, e)
+
+    def getattr(self, base, attr, st, node):
+        if isinstance(base, _Fn):
+            if base.kind == "ext":
+                return _Fn("ext", f"{base.a}.{attr}")
+            if base.kind == "pkgmod":
+                return self.global_name(base.a, attr, st)
+            if base.kind == "class":
+                s = self.ctx.rs.lookup_dotted(base.a.split(".")[0], base.a.split(".", 1)[1] + "." + attr)
+                v = self._sym_value(s, st, 0) if s is not None else None
+                return v if v is not None else _T("attr", (base, attr))
+            return _T("attr", (base, attr))
+        if isinstance(base, _EnT):
+            for n, v in self.enum_of(base).members:
+                if n == attr:
+                    return _En(base.tname, n, v)
+            return _T("attr", (base, attr))
+        if isinstance(base, _En):
+            if attr == "name":
+                return base.name
+            if attr == "value":
+                return base.value
+            return _T("attr", (base, attr))
+        if isinstance(base, _Par):
+            return _T("field", (base, attr))
+        if isinstance(base, _Unk):
+            return base
+        return _Fn("bmeth", base, attr)
+
+    # ------------------------------------------------------------------------------------------------ comprehensions
+    def _comp(self, e, st, kind):
+        fr = st.frames[-1]
+        inner = _Frame({}, fr.mod, fr.func, fr, frozenset())
+        results = []  # (value or (k, v), condition)
+        unknown = [False]
+
+        def rec(i):
+            if i == len(e.generators):
+                if isinstance(e, ast.DictComp):
+                    results.append(((self.ev(e.key, st), self.ev(e.value, st)), cond_stack[-1] if cond_stack else True))
+                else:
+                    results.append((self.ev(e.elt, st), cond_stack[-1] if cond_stack else True))
+                return
+            g = e.generators[i]
+            seq = self.iterate(self.ev(g.iter, st), st)
+            if seq is None:
+                unknown[0] = True
+                return
+            for x in seq:
+                self.assign(g.target, x, st)
+                cond = cond_stack[-1] if cond_stack else True
+                skip = False
+                for c in g.ifs:
+                    v = self.ev(c, st)
+                    t = self.truth(st, v)
+                    if t is False:
+                        skip = True
+                        break
+                    if t is None:
+                        cond = v if cond is True else _T("and", (cond, v))
+                if skip:
+                    continue
+                cond_stack.append(cond)
+                rec(i + 1)
+                cond_stack.pop()
+
+        cond_stack = []
+        st.frames.append(inner)
+        try:
+            rec(0)
+        finally:
+            st.frames.pop()
+        return results, unknown[0]
+
+    def _comp_value(self, e, st, kind):
+        results, unknown = self._comp(e, st, kind)
+        if unknown:
+            return st.alloc(e, _HSym(None, kind, None, (), e), "sym")
+        if all(c is True for _v, c in results):
+            vals = [v for v, _c2 in results]
+            if kind == "set":
+                if all(self.hashable_known(v) for v in vals):
+                    return st.alloc(e, _HSet(vals), "set")
+                return _Unk(_LOST, "set comprehension")
+            if kind == "dict":
+                return st.alloc(e, _HDict([[k, v] for k, v in vals]), "dict")
+            if kind == "gen":
+                return _T("seq", tuple(vals))
+            return st.alloc(e, _HList(vals), "list")
+        if kind == "dict":
+            return _Unk(_LOST, "filtered dict comprehension")
+        elems = {}
+        for v, c in results:
+            if not self.hashable_known(v):
+                return st.alloc(e, _HSym(None, kind, None, (), e), "sym")
+            if v in elems and elems[v] is not True:
+                elems[v] = c if c is True else elems[v]
+            else:
+                elems.setdefault(v, c)
+        return st.alloc(e, _HSym(None, kind, elems, (), e), "sym")
+
+    def ev_SetComp(self, e, st):
+        return self._comp_value(e, st, "set")
+
+    def ev_ListComp(self, e, st):
+        return self._comp_value(e, st, "list")
+
+    def ev_GeneratorExp(self, e, st):
+        return self._comp_value(e, st, "gen")
+
+    def ev_DictComp(self, e, st):
+        return self._comp_value(e, st, "dict")
+
+    # ------------------------------------------------------------------------------------------------ calls
+    def ev_Call(self, e, st):
+        fn = self.ev(e.func, st)
+        args, kwargs = [], {}
+        for a in e.args:
+            if isinstance(a, ast.Starred):
+                seq = self.iterate(self.ev(a.value, st), st)
+                if seq is None:
+                    return _Unk(_LOST, "starred call")
+                args.extend(seq)
+            else:
+                args.append(self.ev(a, st))
+        for k in e.keywords:
+            if k.arg is None:
+                return _Unk(_LOST, "** call")
+            kwargs[k.arg] = self.ev(k.value, st)
+        top = st.depth == 0
+        if top:
+            st.site = e
+        return self.call(fn, args, kwargs, st, e)
+
+    def escape(self, vals, st):
+        for v in vals:
+            if isinstance(v, _Ref):
+                o = st.heap.get(v.oid)
+                if isinstance(o, _HList):
+                    o.opaque = True
+                    st.events.append(("escape", o.root))
+                elif isinstance(o, _HStream):
+                    raise _Stop("the stream is handed to code that is not modelled")
+
+    def call(self, fn, args, kwargs, st, node):
+        if isinstance(fn, _Fn):
+            k = fn.kind
+            if k == "ext":
+                return self.call_ext(fn.a, args, kwargs, st, node)
+            if k == "func":
+                return self.call_func(fn.a, list(fn.c or ()) + list(args), {**dict(fn.b or ()), **kwargs}, st, node)
+            if k == "partial":
+                return self.call(fn.a, list(fn.b) + list(args), {**dict(fn.c), **kwargs}, st, node)
+            if k == "bmeth":
+                return self.call_method(fn.a, fn.b, args, kwargs, st, node)
+            if k == "lambda":
+                return self.call_lambda(fn, args, kwargs, st, node)
+            if k == "class":
+                self.escape(list(args) + list(kwargs.values()), st)
+                return _T("new", (fn.a,) + tuple(args))
+            if k == "struct":
+                return _T("new", (fn.a,) + tuple(args))
+        if isinstance(fn, _EnT):
+            return self.make_enum(fn, args[0] if args else 0, st)
+        if isinstance(fn, _T) and fn.op == "field":
+            # attribute of an opaque value that is called: a method call on that value
+            return self.call_method(fn.args[0], fn.args[1], args, kwargs, st, node)
+        self.escape(list(args) + list(kwargs.values()), st)
+        if isinstance(fn, _Unk):
+            return _Unk(fn.deps | _deps(tuple(args)), "call of a value that is not known")
+        return _T("call", (fn,) + tuple(args) + tuple(sorted(kwargs.items(), key=lambda kv: kv[0])))
+
+    def make_enum(self, t, v, st):
+        en = self.enum_of(t)
+        cd = self.ctx.cdefs(t.mod)[t.var]
+        if isinstance(v, _En):
+            v = v.value
+        if isinstance(v, bytes):
+            ts = cd.type_size(en.base) or (4, False)
+            if len(v) < ts[0]:
+                raise _Raise("EOFError")
+            v = int.from_bytes(v[: ts[0]], "big" if cd.endian == ">" else "little", signed=ts[1])
+        if isinstance(v, _Rd) or (isinstance(v, _T) and v.op == "slice"):
+            ts = cd.type_size(en.base) or (4, False)
+            v = self.decode(v, "big" if cd.endian == ">" else "little", ts[1], st, ts[0])
+        if isinstance(v, int):
+            names = [n for n, x in en.members if x == v]
+            return _En(t.tname, names[0] if names else None, v)
+        return _En(t.tname, _T("name", (v,)), v)
+
+    def call_func(self, f, args, kwargs, st, node):
+        if self.intercept:
+            # the call itself is the result: which package function is applied to what
+            pos = [x.arg for x in f.node.args.posonlyargs + f.node.args.args]
+            return _T("invoke", (f.fq, tuple(sorted(list(zip(pos, args)) + list(kwargs.items()), key=lambda kv: kv[0]))))
+        if st.depth >= self.MAX_DEPTH:
+            self.escape(list(args) + list(kwargs.values()), st)
+            return _Unk(_LOST | _deps(tuple(args)), f"call depth at {f.fq}")
+        fn = f.node
+        a = fn.args
+        if a.vararg or a.kwarg:
+            self.escape(list(args) + list(kwargs.values()), st)
+            return _T("call", (f.fq,) + tuple(args))
+        pos = [x.arg for x in a.posonlyargs + a.args]
+        names = pos + [x.arg for x in a.kwonlyargs]
+        env = {}
+        if len(args) > len(pos):
+            raise _Raise("TypeError")
+        for p, v in zip(pos, args):
+            env[p] = v
+        for k, v in kwargs.items():
+            if k not in names:
+                raise _Raise("TypeError")
+            env[k] = v
+        dfl = param_defaults(fn)
+        for p in names:
+            if p not in env:
+                if p not in dfl:
+                    raise _Raise("TypeError")
+                saved = st.frames
+                st.frames = [_Frame({}, f.module.name)]
+                try:
+                    env[p] = self.ev(dfl[p], st)
+                finally:
+                    st.frames = saved
+        if any(isinstance(n, (ast.Yield, ast.YieldFrom)) for n in body_walk(fn)):
+            self.escape(list(args) + list(kwargs.values()), st)
+            return _T("call", (f.fq,) + tuple(args))
+        saved, saved_depth = st.frames, st.depth
+        st.frames = [_Frame(env, f.module.name, f, None, self._locals(fn))]
+        st.depth += 1
+        try:
+            res = self.block(fn.body, st)
+        finally:
+            st.frames, st.depth = saved, saved_depth
+        if len(res) != 1:
+            raise _Stop(f"callee {f.fq} does not evaluate to a single path")
+        _st, sig = res[0]
+        if sig is None:
+            return None
+        if isinstance(sig, tuple) and sig[0] == "return":
+            return sig[1]
+        if isinstance(sig, tuple) and sig[0] == "raise":
+            raise _Raise(sig[1])
+        raise _Stop(f"callee {f.fq} ends with {sig}")
+
+    def call_lambda(self, fn, args, kwargs, st, node):
+        ent = self.lambdas.get(fn.a)
+        if ent is None or st.depth >= self.MAX_DEPTH:
+            return _Unk(_LOST, "lambda")
+        lam, _frame = ent
+        a = lam.args
+        pos = [x.arg for x in a.posonlyargs + a.args]
+        env = dict(zip(pos, args))
+        env.update(kwargs)
+        dfl = param_defaults(lam) if not isinstance(lam, ast.Lambda) else {p.arg: d for p, d in zip(a.args[len(a.args) - len(a.defaults):], a.defaults)}
+        for p in pos:
+            if p not in env:
+                if p in dfl:
+                    env[p] = self.ev(dfl[p], st)
+                else:
+                    raise _Raise("TypeError")
+        cur = st.frames[-1]
+        st.frames.append(_Frame(env, cur.mod, cur.func, cur, frozenset(env) if isinstance(lam, ast.Lambda) else self._locals(lam)))
+        st.depth += 1
+        try:
+            if isinstance(lam, ast.Lambda):
+                return self.ev(lam.body, st)
+            res = self.block(lam.body, st)
+        finally:
+            st.depth -= 1
+            st.frames.pop()
+        if len(res) != 1:
+            raise _Stop("nested function does not evaluate to a single path")
+        sig = res[0][1]
+        if sig is None:
+            return None
+        if isinstance(sig, tuple) and sig[0] == "return":
+            return sig[1]
+        if isinstance(sig, tuple) and sig[0] == "raise":
+            raise _Raise(sig[1])
+        raise _Stop("nested function ends abnormally")
+
+    def decode(self, data, byteorder, signed, st, size=None):
+        """int.from_bytes(data[:size], byteorder, signed=signed)"""
+        if size is not None:
+            data = self.slice(data, None, size, None, st, None)
+        if isinstance(data, bytes) and isinstance(byteorder, str):
+            try:
+                v = int.from_bytes(data, byteorder, signed=bool(signed))
+            except Exception:
+                raise _Raise("ValueError")
+            st.events.append(("dec", st.site, None, len(data), byteorder, bool(signed), True))
+            return v
+        base = data
+        width, lo = None, 0
+        if isinstance(base, _T) and base.op == "slice" and len(base.args) == 3:
+            lo = base.args[1]
+            width = base.args[2] - lo
+            base = base.args[0]
+        if isinstance(base, _Rd) and isinstance(byteorder, str) and isinstance(signed, (bool, int)):
+            if width is None:
+                width = base.n
+            st.events.append(("dec", st.site, base.idx, width, byteorder, bool(signed), lo == 0 and width == base.n))
+            return _T("dec", (data, byteorder, bool(signed)))
+        return _T("call", ("int.from_bytes", data, byteorder, signed))
+
+    def struct_unpack(self, fmt, rd, st, exact=True):
+        import re
+        import struct
+
+        m = re.fullmatch(r"([<>!=])((?:\d*[BHILQbhilqx])+)", fmt.replace(" ", ""))
+        if not m:
+            return None
+        bo = "little" if m.group(1) == "<" else "big" if m.group(1) in (">", "!") else sys_byteorder()
+        try:
+            total = struct.calcsize(fmt)
+        except struct.error:
+            return None
+        if (exact and total != rd.n) or total > rd.n:
+            raise _Raise("struct.error")
+        out, pos = [], 0
+        for cnt, code in re.findall(r"(\d*)([BHILQbhilqx])", m.group(2)):
+            w = struct.calcsize(m.group(1) + code)
+            for _ in range(int(cnt) if cnt else 1):
+                if code != "x":
+                    out.append(self.decode(self.slice(rd, pos, pos + w, None, st, None), bo, code.islower(), st))
+                pos += w
+        return tuple(out)
+
+    def call_ext(self, name, args, kwargs, st, node):
+        a0 = args[0] if args else None
+        if name == "io.BytesIO":
+            return st.alloc(node, _HStream(a0 if args else b""), "stream")
+        if name in ("functools.partial", "partial"):
+            if not args:
+                raise _Raise("TypeError")
+            return _Fn("partial", args[0], tuple(args[1:]), tuple(sorted(kwargs.items())))
+        if name == "int.from_bytes":
+            bo = args[1] if len(args) > 1 else kwargs.get("byteorder", "big")
+            return self.decode(a0, bo, kwargs.get("signed", False), st)
+        if name in ("bytes", "bytearray", "memoryview") and len(args) == 1 and (isinstance(a0, (_Par, _Rd, bytes)) or (isinstance(a0, _T) and a0.op in ("slice", "cast"))):
+            return a0 if not isinstance(a0, _Par) else _T("cast", (a0,))
+        if name == "len" and len(args) == 1:
+            return self.length(a0, st)
+        if name == "bool" and len(args) == 1:
+            t = self.truth(st, a0)
+            return t if t is not None else _T("not", (_T("not", (a0,)),))
+        if name == "isinstance" and len(args) == 2:
+            return self.isinstance_(a0, args[1])
+        if name == "getattr" and len(args) >= 2 and isinstance(args[1], str):
+            return self.getattr(a0, args[1], st, node)
+        if name in ("set", "frozenset", "list", "tuple", "sorted", "reversed", "iter"):
+            if not args:
+                return {"set": lambda: st.alloc(node, _HSet(), "set"), "frozenset": lambda: frozenset(), "list": lambda: st.alloc(node, _HList(), "list"),
+                        "tuple": lambda: ()}.get(name, lambda: _Unk(_LOST, name))()
+            o = st.heap.get(a0.oid) if isinstance(a0, _Ref) else None
+            if isinstance(o, _HSym):
+                # (the order in which a set is listed is not part of what the rules compare)
+                new = o.copy()
+                new.kind = "list" if name in ("sorted", "reversed") else name
+                return st.alloc(node, new, "sym")
+            seq = self.iterate(a0, st)
+            if seq is None:
+                if isinstance(o, _HList):
+                    st.events.append(("reorder", o.root, name)) if name in ("sorted", "reversed") else None
+                return _T("call", (name,) + tuple(args))
+            if name in ("sorted", "reversed") and isinstance(o, _HList):
+                st.events.append(("reorder", o.root, name))
+            if name == "sorted":
+                if all(_concrete(x) for x in seq) and not kwargs:
+                    try:
+                        return st.alloc(node, _HList(sorted(seq)), "list")
+                    except TypeError:
+                        pass
+                return _T("call", (name,) + tuple(args))
+            if name == "reversed":
+                return _T("seq", tuple(reversed(seq)))
+            if name in ("set", "frozenset"):
+                if not all(self.hashable_known(x) for x in seq):
+                    return _T("call", (name,) + tuple(args))
+                return st.alloc(node, _HSet(seq), "set") if name == "set" else frozenset(seq)
+            if name == "list":
+                return st.alloc(node, _HList(seq, o.root if isinstance(o, _HList) else None), "list")
+            if name == "tuple":
+                return tuple(seq)
+            return _T("seq", tuple(seq))
+        if name == "dict":
+            if not args and not kwargs:
+                return st.alloc(node, _HDict(), "dict")
+            o = st.heap.get(a0.oid) if isinstance(a0, _Ref) else None
+            if isinstance(o, _HDict) and not kwargs:
+                return st.alloc(node, _HDict(o.pairs), "dict")
+            seq = self.iterate(a0, st) if args else []
+            if seq is not None and all(isinstance(x, tuple) and len(x) == 2 for x in seq):
+                return st.alloc(node, _HDict([list(x) for x in seq] + [[k, v] for k, v in kwargs.items()]), "dict")
+            return _T("call", (name,) + tuple(args))
+        if name == "dict.fromkeys" and 1 <= len(args) <= 2:
+            seq = self.iterate(a0, st)
+            if seq is not None and all(self.hashable_known(x) for x in seq):
+                return st.alloc(node, _HDict([[x, args[1] if len(args) > 1 else None] for x in seq]), "dict")
+        if name in ("zip", "enumerate", "range", "map", "filter"):
+            if name == "range" and all(isinstance(x, int) for x in args) and args:
+                r = range(*args)
+                return tuple(r) if len(r) <= 4096 else _Unk(_LOST, "large range")
+            seqs = [self.iterate(x, st) for x in args]
+            if name == "zip" and all(s is not None for s in seqs):
+                return _T("seq", tuple(tuple(x) for x in zip(*seqs)))
+            if name == "enumerate" and seqs and seqs[0] is not None:
+                start = args[1] if len(args) > 1 else kwargs.get("start", 0)
+                if isinstance(start, int):
+                    return _T("seq", tuple((i + start, x) for i, x in enumerate(seqs[0])))
+            return _T("call", (name,) + tuple(args))
+        if name in ("any", "all") and len(args) == 1:
+            o = st.heap.get(a0.oid) if isinstance(a0, _Ref) else None
+            seq = self.iterate(a0, st)
+            if seq is not None:
+                ts = [self.truth(st, x) for x in seq]
+                r = _or3(ts) if name == "any" else _and3(ts)
+                if r is not None:
+                    return r
+            return _T("call", (name, a0))
+        if name in ("int", "str", "hex", "repr", "abs", "min", "max", "sum", "ord", "chr", "format", "divmod"):
+            vals = [x.value if isinstance(x, _En) and name in ("int", "hex") else x for x in args]
+            if vals and all(_concrete(x) for x in vals) and not kwargs:
+                try:
+                    return {"int": int, "str": str, "hex": hex, "repr": repr, "abs": abs, "min": min, "max": max, "sum": sum, "ord": ord, "chr": chr,
+                            "format": format, "divmod": divmod}[name](*vals)
+                except Exception:
+                    raise _Raise("ValueError")
+            if name == "int" and len(vals) == 1 and isinstance(vals[0], _T) and vals[0].op == "dec":
+                return vals[0]
+            return _T("call", (name,) + tuple(vals))
+        if name == "print":
+            return None
+        if name in _PURE_EXT and all(_concrete(x) for x in list(args) + list(kwargs.values())):
+            try:
+                r = _PURE_EXT[name](*args, **kwargs)
+            except Exception as e:
+                raise _Raise(type(e).__name__)
+            return r if _concrete(r) else _Unk(_LOST, name)
+        if name in ("struct.unpack", "struct.unpack_from") and len(args) == 2 and isinstance(a0, str) and isinstance(args[1], _Rd) and isinstance(args[1].n, int):
+            r = self.struct_unpack(a0, args[1], st, exact=name == "struct.unpack")
+            if r is not None:
+                return r
+        if name in ("hasattr", "callable", "id", "type", "next", "object"):
+            return _T("call", (name,) + tuple(args))
+        if name in ("ValueError", "IndexError", "KeyError", "TypeError", "Exception", "RuntimeError", "NotImplementedError", "AttributeError", "EOFError"):
+            return _T("new", (name,) + tuple(args))
+        self.escape(list(args) + list(kwargs.values()), st)
+        return _T("call", (name,) + tuple(args) + tuple(sorted(kwargs.items(), key=lambda kv: kv[0])))
+
+    def isinstance_(self, v, t):
+        names = []
+        for x in (t if isinstance(t, tuple) else (t,)):
+            if isinstance(x, _Fn) and x.kind == "ext":
+                names.append(x.a)
+            else:
+                return _T("call", ("isinstance", v, t))
+        py = None
+        if isinstance(v, bool):
+            py = {"bool", "int"}
+        elif isinstance(v, int):
+            py = {"int"}
+        elif isinstance(v, str):
+            py = {"str"}
+        elif isinstance(v, bytes) or isinstance(v, _Rd):
+            py = {"bytes"}
+        elif isinstance(v, _T) and v.op == "dec":
+            py = {"int"}
+        elif isinstance(v, _En):
+            py = {"int"}
+        elif isinstance(v, tuple):
+            py = {"tuple"}
+        if py is None:
+            return _T("call", ("isinstance", v, t))
+        return any(n in py for n in names)
+
+    def length(self, v, st):
+        if isinstance(v, (str, bytes, tuple, frozenset)):
+            return len(v)
+        if isinstance(v, _Rd):
+            return v.n
+        if isinstance(v, _T) and v.op == "slice" and len(v.args) == 3 and isinstance(v.args[0], _Rd) and isinstance(v.args[0].n, int):
+            return min(v.args[0].n, v.args[2])
+        if isinstance(v, _Ref):
+            o = st.heap.get(v.oid)
+            if isinstance(o, _HList) and not o.opaque and not any(isinstance(x, _T) and x.op in ("*", "rest") for x in o.items):
+                return len(o.items)
+            if isinstance(o, _HSet):
+                return len(o.items)
+            if isinstance(o, _HDict):
+                return len(o.pairs)
+        return _T("len", (v,))
+
+    def call_method(self, recv, attr, args, kwargs, st, node):
+        a0 = args[0] if args else None
+        if isinstance(recv, _Ref):
+            o = st.heap.get(recv.oid)
+            if isinstance(o, _HStream):
+                if attr == "read" and len(args) == 1 and not kwargs:
+                    n = a0
+                    if isinstance(n, _En):
+                        n = n.value
+                    idx = len(st.reads)
+                    content = self.oracle.contents.get(idx)
+                    pos = o.pos
+                    if content is not None:
+                        if isinstance(n, int):
+                            content = content[:n] if n >= 0 else content
+                        st.reads.append((idx, n, content, o.src))
+                        o.pos = pos + len(content) if pos is not None else None
+                        return content
+                    st.reads.append((idx, n, None, o.src))
+                    o.pos = pos + n if (pos is not None and isinstance(n, int) and not isinstance(n, bool) and n >= 0) else None
+                    if pos is not None and isinstance(n, int) and any(pos <= k < pos + n for k in self.oracle.zero):
+                        self.oracle.reads.add(idx)
+                    return _Rd(idx, n, pos)
+                if attr == "tell":
+                    return _T("tell", (o.src, len(st.reads)))
+                raise _Stop(f"stream operation {attr}({len(args)} arguments) is not modelled")
+            if isinstance(o, _HList):
+                if attr == "append" and len(args) == 1:
+                    o.items.append(a0)
+                    st.events.append(("append", o.root, a0))
+                    return None
+                if attr == "extend" and len(args) == 1:
+                    self.list_extend(o, a0, st)
+                    return None
+                if attr in ("insert", "sort", "reverse", "pop", "remove", "clear"):
+                    st.events.append(("reorder", o.root, attr))
+                    if attr == "insert" and len(args) == 2 and isinstance(a0, int) and not isinstance(a0, bool):
+                        o.items.insert(a0, args[1])
+                        return None
+                    if attr == "reverse" and not args:
+                        o.items.reverse()
+                        return None
+                    o.opaque = True
+                    return _Unk(_LOST, attr)
+                if attr == "copy":
+                    return st.alloc(node, _HList(o.items, o.root, o.opaque), "list")
+                if attr in ("index", "count"):
+                    return _T("meth:" + attr, (recv,) + tuple(args))
+            if isinstance(o, _HSet):
+                if attr in ("issuperset", "issubset") and len(args) == 1:
+                    return self.superset(st, recv, a0, node) if attr == "issuperset" else self.superset(st, a0, recv, node)
+                fs = self.as_set(a0, st) if args else None
+                if attr in ("union", "difference", "intersection", "symmetric_difference") and len(args) == 1 and fs is not None:
+                    r = {"union": o.items | fs, "difference": o.items - fs, "intersection": o.items & fs, "symmetric_difference": o.items ^ fs}[attr]
+                    return st.alloc(node, _HSet(r), "set")
+                if attr == "copy":
+                    return st.alloc(node, _HSet(o.items), "set")
+                if attr == "add" and len(args) == 1 and self.hashable_known(a0):
+                    o.items.add(a0)
+                    return None
+                if attr in ("update", "difference_update", "intersection_update") and fs is not None:
+                    o.items = set({"update": o.items | fs, "difference_update": o.items - fs, "intersection_update": o.items & fs}[attr])
+                    return None
+                if attr in ("discard", "remove") and len(args) == 1 and self.hashable_known(a0):
+                    o.items = {x for x in o.items if self.key_eq(x, a0) is not True}
+                    return None
+                if attr == "isdisjoint" and fs is not None:
+                    return not (o.items & fs)
+                raise _Stop(f"set operation {attr} is not modelled")
+            if isinstance(o, _HSym):
+                if attr in ("issuperset",) and len(args) == 1:
+                    return self.superset(st, recv, a0, node)
+                if attr == "issubset" and len(args) == 1:
+                    return self.superset(st, a0, recv, node)
+                fs = self.as_set(a0, st) if args else None
+                if attr == "difference" and fs is not None:
+                    new = o.copy()
+                    self.sym_sub(new, fs, st)
+                    return st.alloc(node, new, "sym")
+                if attr == "difference_update" and fs is not None:
+                    self.sym_sub(o, fs, st)
+                    return None
+                if attr == "copy":
+                    return st.alloc(node, o.copy(), "sym")
+                raise _Stop(f"operation {attr} on a filtered collection is not modelled")
+            if isinstance(o, _HDict):
+                if attr == "get" and 1 <= len(args) <= 2:
+                    dflt = args[1] if len(args) > 1 else None
+                    rs = [(self.key_eq(k, a0), v) for k, v in o.pairs]
+                    for r, v in rs:
+                        if r is True:
+                            return v
+                    if all(r is False for r, _v in rs):
+                        return dflt
+                    return _T("get", (recv, a0, dflt))
+                if attr == "items":
+                    return _T("seq", tuple((k, v) for k, v in o.pairs))
+                if attr == "keys":
+                    return _T("seq", tuple(k for k, _v in o.pairs))
+                if attr == "values":
+                    return _T("seq", tuple(v for _k, v in o.pairs))
+                if attr == "copy":
+                    return st.alloc(node, _HDict(o.pairs), "dict")
+                if attr == "update" and len(args) <= 1:
+                    other = st.heap.get(a0.oid) if isinstance(a0, _Ref) else None
+                    new = [list(x) for x in other.pairs] if isinstance(other, _HDict) else ([] if not args else None)
+                    if new is not None and all(self.hashable_known(k) for k, _v in new):
+                        for k, v in new + [[k2, v2] for k2, v2 in kwargs.items()]:
+                            for pr in o.pairs:
+                                if self.key_eq(pr[0], k) is True:
+                                    pr[1] = v
+                                    break
+                            else:
+                                o.pairs.append([k, v])
+                        return None
+                raise _Stop(f"dict operation {attr} is not modelled")
+        if isinstance(recv, (str, bytes, int)) and not isinstance(recv, bool) and attr in _STR_METHODS:
+            if attr == "format" and isinstance(recv, str):
+                if all(_concrete(x) and not isinstance(x, (tuple, frozenset)) for x in list(args) + list(kwargs.values())):
+                    try:
+                        return recv.format(*args, **kwargs)
+                    except Exception:
+                        raise _Raise("ValueError")
+                return self.str_format(recv, args, kwargs)
+            if attr == "join" and len(args) == 1:
+                seq = self.iterate(a0, st)
+                if seq is not None and all(isinstance(x, type(recv)) for x in seq):
+                    return recv.join(seq)
+                return _T("meth:join", (recv, a0))
+            if all(_concrete(x) for x in list(args) + list(kwargs.values())):
+                try:
+                    r = getattr(recv, attr)(*args, **kwargs)
+                except Exception:
+                    raise _Raise("ValueError")
+                if isinstance(r, list):
+                    return st.alloc(node, _HList(r), "list")
+                return r
+        if isinstance(recv, frozenset):
+            fs = self.as_set(a0, st) if args else None
+            if attr in ("issuperset", "issubset") and len(args) == 1:
+                return self.superset(st, recv, a0, node) if attr == "issuperset" else self.superset(st, a0, recv, node)
+            if attr in ("union", "difference", "intersection") and fs is not None:
+                return {"union": recv | fs, "difference": recv - fs, "intersection": recv & fs}[attr]
+        if isinstance(recv, tuple) and attr in ("index", "count") and len(args) == 1:
+            rs = [self.eq3(st, x, a0) for x in recv]
+            if all(r is not None for r in rs):
+                if attr == "count":
+                    return sum(1 for r in rs if r)
+                if True in rs:
+                    return rs.index(True)
+                raise _Raise("ValueError")
+        if isinstance(recv, _Unk):
+            self.escape(list(args) + list(kwargs.values()), st)
+            return _Unk(recv.deps | _deps(tuple(args)), "method of a value that is not known")
+        self.escape(list(args) + list(kwargs.values()), st)
+        return _T("meth:" + attr, (recv,) + tuple(args) + tuple(sorted(kwargs.items(), key=lambda kv: kv[0])))
+
+
+# ======================================================================================================================
+# runs, paths and what a path did
+# ======================================================================================================================
+class _Path:
+    def __init__(self, st, sig):
+        self.st, self.sig = st, sig
+        self.end = sig[0] if isinstance(sig, tuple) else ("fall" if sig is None else str(sig))
+        self.imprecise = list(st.imprecise)
+
+    @property
+    def value(self):
+        return self.sig[1] if isinstance(self.sig, tuple) and self.sig[0] == "return" else None
+
+    def reads(self):
+        return [_d(n) for _i, n, _c2, _s in self.st.reads]
+
+    def items(self, root):
+        """(values added to the list lineage `root` since the representative iteration began, opaque?)"""
+        best = None
+        for o in self.st.heap.values():
+            if isinstance(o, _HList) and o.root == root and (best is None or len(o.items) > len(best.items)):
+                best = o
+        if best is None:
+            return [], False
+        base = (self.st.snap or {}).get(root, 0)
+        return [_d(x) for x in best.items[base:]], best.opaque
+
+
+def _d(v):
+    """canonical, comparable description of a value"""
+    if isinstance(v, bool) or v is None or isinstance(v, (int, str, bytes)):
+        return (type(v).__name__, v)
+    if isinstance(v, _Rd):
+        return ("read", v.idx)
+    if isinstance(v, _Par):
+        return ("param", v.name)
+    if isinstance(v, tuple):
+        return ("tuple",) + tuple(_d(x) for x in v)
+    if isinstance(v, _En):
+        return ("enum", v.tname, _d(v.name), _d(v.value))
+    if isinstance(v, _T) and v.op == "dec":
+        base, width, lo = v.args[0], None, 0
+        if isinstance(base, _T) and base.op == "slice" and len(base.args) == 3:
+            lo, width, base = base.args[1], base.args[2] - base.args[1], base.args[0]
+        if isinstance(base, _Rd) and lo == 0:
+            return ("int", base.idx, _d(width if width is not None else base.n), v.args[1], v.args[2])
+        if isinstance(base, _Rd):
+            return ("int@", base.idx, lo, _d(width), v.args[1], v.args[2])
+    if isinstance(v, _T):
+        return ("term", v.op) + tuple(_d(x) for x in v.args)
+    if isinstance(v, frozenset):
+        return ("set",) + tuple(sorted((_d(x) for x in v), key=repr))
+    return ("?", type(v).__name__)
+
+
+def _be32(idx):
+    return ("int", idx, ("int", 4), "big", False)
+
+
+def _show(d, depth=0):
+    """short human text of a description"""
+    if not isinstance(d, tuple) or not d:
+        return repr(d)
+    t = d[0]
+    if t in ("int", "str", "bytes", "bool", "NoneType") and len(d) == 2:
+        return repr(d[1])
+    if t == "read":
+        return f"<bytes of read #{d[1] + 1}>"
+    if t == "param":
+        return f"<parameter {d[1]}>"
+    if t == "tuple":
+        return "(" + ", ".join(_show(x, depth + 1) for x in d[1:]) + ")"
+    if t == "int" and len(d) == 5:
+        return f"<{_show(d[2])}-byte {d[3]}-endian {'signed' if d[4] else 'unsigned'} int of read #{d[1] + 1}>"
+    if t == "enum":
+        return f"{d[1]}.{_show(d[2])}"
+    if t == "term":
+        return f"<{d[1]}(..)>" if depth > 1 else f"<{d[1]}(" + ", ".join(_show(x, depth + 1) for x in d[2:5]) + ")>"
+    return "<?>"
+
+
+def _run(ctx, f, oracle=None, args=None):
+    """([paths], None) or ([], reason the evaluation stopped)"""
+    ev = _Ev(ctx, oracle)
+    try:
+        return [_Path(st, sig) for st, sig in ev.run(f, args)], None
+    except _Stop as e:
+        return [], str(e)
+    except RecursionError:
+        return [], "evaluation too deep"
+    except (AttributeError, TypeError, ValueError, KeyError, IndexError) as e:
+        # a shape of code the evaluator was not written for: nothing is claimed about it (recorded as a note)
+        ctx.rep.notes.append(f"C03 evaluator gave up on {f.fq}: {type(e).__name__}: {e}")
+        return [], f"the evaluator does not handle this code ({type(e).__name__})"
+
+
+class _Analysis:
+    """Evaluation results shared by the rules of this module (one per Ctx)."""
+
+    def __init__(self, ctx):
+        self.ctx = ctx
+        self.cache = {}
+        self.all_runs = {}  # fq -> [(label, paths, stop)]
+
+    @classmethod
+    def of(cls, ctx):
+        a = getattr(ctx, "_c03_analysis", None)
+        if a is None:
+            a = cls(ctx)
+            ctx._c03_analysis = a
+        return a
+
+    def run(self, fq, label, oracle=None):
+        key = (fq, label)
+        if key not in self.cache:
+            f = self.ctx.repo.func(fq)
+            paths, stop = _run(self.ctx, f, oracle)
+            self.cache[key] = (paths, stop)
+            self.all_runs.setdefault(fq, []).append((label, paths, stop))
+        return self.cache[key]
+
+    def root(self, fq):
+        """lineage of the list the parser returns (found on the input that ends at once), or None"""
+        key = (fq, "<root>")
+        if key not in self.cache:
+            paths, stop = _run(self.ctx, self.ctx.repo.func(fq), _Oracle({0: b""}))
+            roots = set()
+            for p in paths:
+                v = p.value
+                o = p.st.heap.get(v.oid) if isinstance(v, _Ref) else None
+                if p.end == "return" and isinstance(o, _HList):
+                    roots.add(o.root)
+                elif p.end in ("return", "fall"):
+                    roots.add(None)
+            self.cache[key] = next(iter(roots)) if len(roots) == 1 else None
+        return self.cache[key]
+
+    def enum(self, name):
+        return self.ctx.cdefs("beacon")["cs_struct"].enum(name)
+
+
+def _verdict(paths, stop, root, want, opcode_len=None):
+    """Compare every path of a run with the prescribed behaviour of one step.
+
+    want(reads, items, path) -> None if the path behaves as prescribed, else a short text.  Returns (status, detail)
+    with status 'ok' | 'bad' | 'undecided'.  A path that differs only after a test the evaluator could not decide
+    although its operands were fixed by the assumptions is not evidence (undecided)."""
+    if stop is not None:
+        return "undecided", f"evaluation stopped: {stop}"
+    if root is None:
+        return "undecided", "the list the parser returns could not be located"
+    if not paths:
+        return "undecided", "no path"
+    bad, unsure = [], []
+    stepping = [p for p in paths if p.st.reads] if opcode_len is not None else paths
+    if not stepping:
+        return "undecided", "no path reads the step"
+    for p in stepping:
+        items, opaque = p.items(root)
+        reads = p.reads()
+        why = None
+        if opaque:
+            why = "the result list is modified by something other than append/extend"
+        elif p.end != "next" and opcode_len is not None:
+            why = {"return": "the parser returns", "fall": "the parser leaves the loop", "raise": f"the parser raises {p.sig[1] if isinstance(p.sig, tuple) else ''}"}.get(p.end, p.end)
+            why += " instead of going on with the next step"
+        else:
+            if opcode_len is not None and reads and len(reads) >= 2 and reads[-1] == ("int", opcode_len) and want(reads, items, p) is not None and want(reads[:-1], items, p) is None:
+                # read-ahead loops fetch the next opcode at the end of the iteration
+                reads = reads[:-1]
+            why = want(reads, items, p)
+        if why is not None:
+            (unsure if p.imprecise else bad).append((why, reads, items, p))
+    if bad:
+        why, reads, items, p = bad[0]
+        return "bad", f"{why}: reads of lengths [{', '.join(_show(r) for r in reads)}], emits [{', '.join(_show(i) for i in items)}]"
+    if unsure:
+        why, reads, items, p = unsure[0]
+        return "undecided", f"{why} after {p.imprecise[0]}"
+    return "ok", ""
+
+
+def _ob3(ctx, rule, kind, where, text, status, detail_ok, detail, node=None):
+    if status == "undecided":
+        ctx.undecided(rule, kind, where, text, detail, node)
+    else:
+        ctx.ob(rule, kind, where, text, status == "ok", detail_ok if status == "ok" else detail, node)
+
+
+def _norm(reads, items, zero):
+    """Reads of a length that is known to be zero on the path do not happen as far as the stream is concerned, and
+    their value is b"": drop them and renumber (so `p.read(n) if n else b""` and `p.read(n)` are the same thing)."""
+    drop = {i for i, r in enumerate(reads) if r in zero or r == ("int", 0)}
+    if not drop:
+        return reads, items
+    remap, k = {}, 0
+    for i in range(len(reads)):
+        if i not in drop:
+            remap[i] = k
+            k += 1
+
+    def rw(d):
+        if isinstance(d, tuple):
+            if len(d) == 2 and d[0] == "read":
+                return ("bytes", b"") if d[1] in drop else ("read", remap.get(d[1], d[1]))
+            if len(d) == 5 and d[0] == "int":
+                return ("int", remap.get(d[1], d[1]), rw(d[2]), d[3], d[4])
+            return tuple(rw(x) for x in d)
+        return d
+
+    return [rw(r) for i, r in enumerate(reads) if i not in drop], [rw(x) for x in items]
+
+
+def _expect(exp_reads, exp_items):
+    def want(reads, items, p, exp_reads=exp_reads, exp_items=exp_items):
+        zero = {_d(k) for k, z in p.st.facts.items() if z}
+        if zero or ("int", 0) in reads:
+            reads, items = _norm(reads, items, zero)
+            exp_reads, exp_items = _norm(exp_reads, exp_items, zero)
+        if reads != exp_reads:
+            return "the step does not read what the encoding prescribes"
+        if items != exp_items:
+            return "the step does not emit the prescribed value"
+        return None
+
+    return want
+
+
+def _skip(reads, items, p):
+    return None if not items else "a step is emitted"
+
+
+# ----------------------------------------------------------------------------------------------- transform programs
+_TB = "beacon.parse_transform_binary"
+_RB = "beacon.parse_recover_binary"
+_XL = "beacon.parse_execute_list"
+_GA = "beacon.parse_gargle"
+_PI = "beacon.parse_process_injection_transform_steps"
+
+
+def _op(v, n=4):
+    return int(v).to_bytes(n, "big")
+
+
+def _transform_classes(ctx):
+    """member -> (class, detail) of the client-program parser: 'noarg' | 'lenarg' | 'build' | 'skip' | 'other' | 'undecided'"""
+    an = _Analysis.of(ctx)
+    key = ("<classes>", _TB)
+    if key in an.cache:
+        return an.cache[key]
+    root = an.root(_TB)
+    out = {}
+    for name, val in an.enum("TransformStep").members:
+        paths, stop = an.run(_TB, f"opcode {name}", _Oracle({0: _op(val)}))
+        nm = _d(name)
+        tests = [
+            ("noarg", _expect([("int", 4)], [("tuple", nm, ("bool", True))])),
+            ("lenarg", _expect([("int", 4), ("int", 4), _be32(1)], [("tuple", nm, ("read", 2))])),
+            ("build", lambda reads, items, p, nm=nm: None if (reads == [("int", 4), ("int", 4)] and len(items) == 1 and items[0][:2] == ("tuple", nm)) else "not a build step"),
+            ("skip", _skip),
+        ]
+        ref = "noarg" if name in tables.STEPS_NO_ARG else "lenarg" if name in tables.STEPS_LEN_ARG else "build" if name in tables.STEPS_BUILD else "skip"
+        going_on = [p for p in paths if p.end == "next"]
+        both = []
+        # strict: every path of the iteration; loose: what the step decodes to when the loop goes on (an early exit
+        # is reported once, by the loop-exit obligation, not as a wrong arity class)
+        for ps in (paths, going_on or paths):
+            got = None
+            for cls, want in tests:
+                status, detail = _verdict(ps, stop, root, want, opcode_len=4)
+                if status == "ok":
+                    got = (cls, "")
+                    break
+                if status == "undecided" and got is None:
+                    got = ("undecided", detail)
+            if got is None:
+                # describe it against the class the reference prescribes
+                _s, detail = _verdict(ps, stop, root, dict(tests)[ref], opcode_len=4)
+                got = ("other", detail)
+            both.append(got)
+        out[name] = (both[0][0], both[0][1], both[1][0])
+    an.cache[key] = out
+    return out
+
+
+_CLASS_TEXT = {"noarg": "(name, True) without an argument", "lenarg": "(name, <argument>) with a 32-bit big-endian length prefix",
+               "build": "(name, <build target>) selected by a 32-bit big-endian value", "skip": "nothing (not handled)"}
+
+
+def r2(ctx):
+    f = ctx.repo.func(_TB)
+    an = _Analysis.of(ctx)
+    cls = _transform_classes(ctx)
+    ref_of = {}
+    for name in tables.TRANSFORM_STEPS:
+        ref_of[name] = "noarg" if name in tables.STEPS_NO_ARG else "lenarg" if name in tables.STEPS_LEN_ARG else "build" if name in tables.STEPS_BUILD else None
+    und = {n: d for n, (c, d, _l) in cls.items() if c == "undecided"}
+
+    def table(text, klass, ref):
+        got = {n for n, (_c2, _d2, loose) in cls.items() if loose == klass}
+        if und and got != ref:
+            ctx.undecided("R2", "TABLE", f, text, f"the decoding of {sorted(und)} could not be evaluated ({next(iter(und.values()))})", f.node)
+            return
+        wrong = {n: (cls[n][2], cls[n][1]) for n in (got ^ ref) if n in cls}
+        ctx.ob("R2", "TABLE", f, text, got == ref, f"opcodes decoded as {_CLASS_TEXT[klass]}: {sorted(got)}; reference {sorted(ref)}"
+               + ("" if got == ref else "; " + "; ".join(f"{n}: {c[1] or _CLASS_TEXT.get(c[0], c[0])}" for n, c in sorted(wrong.items()))[:400]), f.node)
+
+    table("ENABLE_STEPS", "noarg", set(tables.STEPS_NO_ARG))
+    table("ARGUMENT_STEPS", "lenarg", set(tables.STEPS_LEN_ARG))
+    handled = {n for n, (_c2, _d2, loose) in cls.items() if loose in ("noarg", "lenarg", "build")}
+    cover = handled | set(tables.STEPS_EXEMPT)
+    if und and cover != set(tables.TRANSFORM_STEPS):
+        ctx.undecided("R2", "TABLE", f, "classes complete", f"the decoding of {sorted(und)} could not be evaluated", f.node)
+    else:
+        ctx.ob("R2", "TABLE", f, "classes complete", cover == set(tables.TRANSFORM_STEPS), f"opcodes that emit no step: {sorted(set(tables.TRANSFORM_STEPS) - cover)} (exempt: {tables.STEPS_EXEMPT})")
+    for name in tables.TRANSFORM_STEPS:
+        if ref_of[name] is None or name not in cls:
+            continue
+        c, detail, _loose = cls[name]
+        _ob3(ctx, "R2", "AGREE", f, f"opcode {name}", "undecided" if c == "undecided" else ("ok" if c == ref_of[name] else "bad"),
+             f"opcode {name} decodes to {_CLASS_TEXT[ref_of[name]]} and the parser goes on with the next step",
+             detail if c == "undecided" else f"opcode {name} must decode to {_CLASS_TEXT[ref_of[name]]}; found: {detail or _CLASS_TEXT.get(c, c)}", f.node)
+    ctx.rep.count("transform_opcodes_evaluated", len(cls), floor=16)
+    # BUILD selector: 0 -> the caller's build target, 1 -> "output"
+    root = an.root(_TB)
+    bval = tables.TRANSFORM_STEPS["BUILD"]
+    sel = {}
+    status_all, details = "ok", []
+    for k in (0, 1):
+        paths, stop = an.run(_TB, f"opcode BUILD selector {k}", _Oracle({0: _op(bval), 1: _op(k)}))
+        vals = set()
+
+        def want(reads, items, p, vals=vals):
+            if reads != [("int", 4), ("int", 4)] or len(items) != 1 or items[0][:2] != ("tuple", _d("BUILD")) or len(items[0]) != 3:
+                return "not a build step"
+            vals.add(items[0][2])
+            return None
+
+        status, detail = _verdict(paths, stop, root, want, opcode_len=4)
+        if status != "ok":
+            status_all = status if status_all != "bad" else "bad"
+            details.append(detail)
+        sel[k] = vals
+    bparam = None
+    if status_all == "ok":
+        v0 = next(iter(sel[0])) if len(sel[0]) == 1 else None
+        if v0 is not None and v0[0] == "param":
+            bparam = v0[1]
+        good = bparam is not None and bparam != params(f.node)[0] and sel[1] == {("str", "output")}
+        ctx.ob("R2", "TABLE", f, "BUILD_MAP", good, f"BUILD selector 0 emits {[_show(x) for x in sel[0]]}, selector 1 emits {[_show(x) for x in sel[1]]}; required the caller's build target and 'output'", f.node)
+    else:
+        _ob3(ctx, "R2", "TABLE", f, "BUILD_MAP", status_all, "", "; ".join(details), f.node)
+    if bparam is None and "build" in params(f.node):
+        bparam = "build"
+    if bparam is None:
+        ctx.undecided("R2", "TABLE", f, "build default", "the parameter that names the build target could not be located", f.node)
+    else:
+        dflt = param_defaults(f.node).get(bparam)
+        ctx.ob("R2", "TABLE", f, "build default", is_const(dflt, "metadata"), f"default build target is {src(dflt)} ('metadata' for the http-get client)")
+    # bindings in SETTING_TO_PRETTYFUNC: what the table entry does with the setting's data
+    ent = _pretty_table(ctx)
+    first = params(f.node)[0]
+
+    def bound(key, fq, need_build):
+        e = ent.get(key)
+        text = key
+        if e is None:
+            ctx.ob("R2", "AGREE", "beacon.py::SETTING_TO_PRETTYFUNC", text, False, f"{key} has no entry")
+            return
+        node, res = e
+        inv = _invocation(res)
+        if inv is None:
+            if isinstance(res, str) or res is None:
+                ctx.undecided("R2", "AGREE", "beacon.py::SETTING_TO_PRETTYFUNC", text, f"entry {src(node)[:60]} could not be evaluated ({res})", node)
+            else:
+                ctx.ob("R2", "AGREE", "beacon.py::SETTING_TO_PRETTYFUNC", text, False, f"bound to {src(node)[:80]}: not an application of {fq.split('.')[-1]} to the setting's data", node)
+            return
+        gfq, env = inv
+        ok = gfq == fq and env.get(params(ctx.repo.func(fq).node)[0]) == ("param", "<data>")
+        detail = f"bound to {src(node)[:80]}"
+        if ok and need_build is not None:
+            if bparam is None:
+                ctx.undecided("R2", "AGREE", "beacon.py::SETTING_TO_PRETTYFUNC", text, "the build-target parameter could not be located", node)
+                return
+            bv = env.get(bparam, _d(_c(param_defaults(f.node).get(bparam))))
+            ok = bv == ("str", need_build)
+            detail += f": build target {_show(bv)} (required {need_build!r})"
+        ctx.ob("R2", "AGREE", "beacon.py::SETTING_TO_PRETTYFUNC", text, ok, detail, node)
+
+    bound("SETTING_C2_REQUEST", _TB, "metadata")
+    bound("SETTING_C2_POSTREQ", _TB, "id")
+    bound("SETTING_C2_RECOVER", _RB, None)
+
+
+def _pretty_table(ctx):
+    """BeaconSetting member name -> (value node, what the entry does when applied to the setting's data): an
+    ('invoke', fq, {param: value}) description, another value description, or a str (reason it is unknown)."""
+    an = _Analysis.of(ctx)
+    if "<pretty>" in an.cache:
+        return an.cache["<pretty>"]
+    tbl = ctx.repo.const("beacon.SETTING_TO_PRETTYFUNC")
+    out = {}
+    if isinstance(tbl, ast.Dict):
+        for k, v in zip(tbl.keys, tbl.values):
+            d = dotted(k) or src(k)
+            name = d.split(".", 1)[-1]
+            ev = _Ev(ctx)
+            st = _St()
+            st.frames.append(_Frame({}, "beacon"))
+            try:
+                fn = ev.ev(v, st)
+                ev.intercept = True
+                st.depth = 1
+                res = ev.call(fn, [_Par("<data>")], {}, st, v)
+                out[name] = (v, res)
+            except (_Stop, _Raise, _Fork, RecursionError, AttributeError, TypeError, ValueError, KeyError, IndexError) as e:
+                out[name] = (v, f"{type(e).__name__}: {e}")
+    an.cache["<pretty>"] = out
+    return out
+
+
+def _invocation(res):
+    if isinstance(res, _T) and res.op == "invoke":
+        return res.args[0], {k: _d(v) for k, v in res.args[1]}
+    return None
+
+
+# ----------------------------------------------------------------------------------------------- R3
+def r3(ctx):
+    an = _Analysis.of(ctx)
+    # make sure every run exists
+    _transform_classes(ctx)
+    _recover_outcomes(ctx)
+    _execute_outcomes(ctx)
+    _gargle_outcomes(ctx)
+    _inject_steps(ctx)
+    n = 0
+    for fq in (_TB, _RB, _PI):
+        f = ctx.repo.func(fq)
+        runs = an.all_runs.get(fq, [])
+        stops = [s for _l, _p, s in runs if s is not None]
+        sites = {}
+        order_bad, src_bad, src_seen, src_unknown = [], [], False, []
+        first = params(f.node)[0]
+        root = an.root(fq)
+        for _label, paths, _stop in runs:
+            for p in paths:
+                for e in p.st.events:
+                    if e[0] == "dec" and e[1] is not None:
+                        sites.setdefault(id(e[1]), (e[1], []))[1].append(e[2:])
+                    elif e[0] == "reorder" and (root is None or e[1] == root):
+                        order_bad.append(e[2])
+                for _i, _n, _c2, s in p.st.reads:
+                    src_seen = True
+                    if s == _Par(first) or s == _T("cast", (_Par(first),)):
+                        continue
+                    if isinstance(s, _Unk):
+                        src_unknown.append(s.why)
+                    else:
+                        src_bad.append(_show(_d(s)))
+        for k_site, (node, occ) in enumerate(sorted(sites.values(), key=lambda x: (getattr(x[0], "lineno", 0), getattr(x[0], "col_offset", 0))), 1):
             n += 1
-            a = origin(f.node, c.args[0]) if c.args else None
-            rd_ok = isinstance(a, ast.Call) and isinstance(a.func, ast.Attribute) and a.func.attr == "read" and a.args and _c(a.args[0]) == 4
-            if not rd_ok and isinstance(c.args[0], ast.Name):
-                # multi-definition local (d = p.read(4) twice): every reaching definition must be a 4-byte read
-                ro = reaching_origins(ctx, f, c.args[0], c)
-                rd_ok = bool(ro) and all(isinstance(o, ast.Call) and isinstance(o.func, ast.Attribute) and o.func.attr == "read" and o.args and _c(o.args[0]) == 4 for o in ro)
-            ctx.ob("R3", "AGREE", f, src(c), w == (4, "big", False) and rd_ok, f"integer read resolves to unpack(size,byteorder,signed)={w} over a 4-byte read={rd_ok}; required (4,'big',False)", c)
-        bad = [src(c) for c in fn_calls(f.node) if (isinstance(c.func, ast.Attribute) and c.func.attr in ("insert", "sort", "reverse", "pop", "remove")) or dotted(c.func) in ("sorted", "reversed")]
-        ctx.ob("R3", "AGREE", f, "program order", not bad, f"steps are appended in program order; reordering calls: {bad}")
-        # the stream is built over the whole program
-        mk = [c for c in fn_calls(f.node) if dotted(c.func) == "io.BytesIO"]
-        ok = len(mk) == 1 and mk[0].args and dotted(mk[0].args[0]) == params(f.node)[0]
-        ctx.ob("R3", "AGREE", f, "io.BytesIO(program)", ok, "parser reads the whole program from its start" if ok else "parser stream is not io.BytesIO(<program parameter>)")
+            kinds = sorted({(w if not isinstance(w, (_T, _Rd, _Unk, _Par)) else "?", bo, sg, whole) for _idx, w, bo, sg, whole in occ}, key=repr)
+            ok = all(k == (4, "big", False, True) for k in kinds)
+            ctx.ob("R3", "AGREE", f, f"integer read {k_site}", ok, f"{src(node)[:60]}: integer decoded as (width, byteorder, signed, over the whole read) = {kinds}; required (4, 'big', False, True)", node)
+        if not sites:
+            if stops:
+                ctx.undecided("R3", "AGREE", f, "integer reads", f"evaluation stopped: {stops[0]}", f.node)
+            else:
+                ctx.ob("R3", "AGREE", f, "integer reads", False, "the parser decodes no integer from its input", f.node)
+        ctx.ob("R3", "AGREE", f, "program order", not order_bad, f"steps are appended in program order; reordering operations on the result: {sorted(set(order_bad))}")
+        if not src_seen or (src_unknown and not src_bad):
+            ctx.undecided("R3", "AGREE", f, "io.BytesIO(program)", "the stream the parser reads from could not be located" if not src_seen else f"stream source not known: {src_unknown[0]}", f.node)
+        else:
+            ctx.ob("R3", "AGREE", f, "io.BytesIO(program)", not src_bad, "parser reads the whole program from its start" if not src_bad else f"parser stream is built over {sorted(set(src_bad))}, not over the program parameter")
     ctx.rep.count("be32_reads", n, floor=7)
     # loop exits: a program parser may stop only on what it read as the *opcode* of this iteration (short/empty read
     # or opcode 0) - stopping on an argument value (e.g. an empty argument) truncates a well-formed program
-    for fq in ("beacon.parse_transform_binary", "beacon.parse_recover_binary", "beacon.parse_execute_list", "beacon.parse_gargle"):
+    for fq, getter in ((_TB, _transform_steps_runs), (_RB, _recover_steps_runs), (_XL, _execute_steps_runs), (_GA, _gargle_steps_runs)):
         f = ctx.repo.func(fq)
-        fv = FuncView.of(f.node)
-        for w in [s2 for s2 in statements(f.node) if isinstance(s2, ast.While)]:
-            first = w.body[0] if w.body else None
-            op = dotted(first.targets[0]) if isinstance(first, ast.Assign) and isinstance(first.value, ast.Call) and isinstance(first.value.func, ast.Attribute) and first.value.func.attr == "read" else None
-            derived = {op} if op else set()
-            changed = True
-            while changed:
-                changed = False
-                for s2 in ast.walk(w):
-                    if isinstance(s2, ast.Assign) and dotted(s2.targets[0]) and dotted(s2.targets[0]) not in derived:
-                        names = {x.id for x in ast.walk(s2.value) if isinstance(x, ast.Name)}
-                        locals_used = {x for x in names if assignments_to(f.node, x)}
-                        reads = any(isinstance(c, ast.Call) and isinstance(c.func, ast.Attribute) and c.func.attr == "read" for c in ast.walk(s2.value))
-                        if locals_used and locals_used <= derived and not reads:
-                            derived.add(dotted(s2.targets[0]))
-                            changed = True
-            for b in [s2 for s2 in ast.walk(w) if isinstance(s2, (ast.Break, ast.Return)) and fv.enclosing(s2, (ast.While, ast.For)) is w]:
-                test = fv.enclosing(b, (ast.If,))
-                names = {x.id for x in ast.walk(test.test) if isinstance(x, ast.Name) and assignments_to(f.node, x.id)} if test is not None else {"<unconditional>"}
-                ok = op is not None and bool(names) and names <= derived
-                ctx.ob("R3", "LOOP", f, f"loop exit under {sorted(names)}", ok,
-                       f"parser stops on the opcode read of the iteration ({op} and values derived from it: {sorted(derived)})" if ok else
-                       f"parser can stop on {sorted(names - derived)} - not the opcode read {op}: a well-formed program is truncated", b)
+        bad, unsure, stops, total = [], [], [], 0
+        for label, paths, stop in getter(ctx):
+            if stop is not None:
+                stops.append(stop)
+            for p in paths:
+                if not p.st.reads:
+                    continue  # left before reading anything: no step was taken
+                total += 1
+                if p.end != "next":
+                    how = {"return": "returns", "fall": "leaves the loop", "raise": "raises"}.get(p.end, p.end)
+                    cond = " and ".join(f"`{src(nd)[:40]}` is {dec}" for nd, _v, _pol, dec in p.st.forks[-2:])
+                    (unsure if p.imprecise else bad).append(f"{label}: {how}" + (f" when {cond}" if cond else ""))
+        if bad:
+            ctx.ob("R3", "LOOP", f, "loop exits", False, f"the parser stops in the middle of a well-formed program ({bad[0]}): the remaining steps are dropped", f.node)
+        elif unsure or (stops and not total):
+            ctx.undecided("R3", "LOOP", f, "loop exits", (unsure[0] if unsure else f"evaluation stopped: {stops[0]}"), f.node)
+        elif not total:
+            ctx.undecided("R3", "LOOP", f, "loop exits", "no step could be evaluated", f.node)
+        else:
+            ctx.ob("R3", "LOOP", f, "loop exits", True, f"after every well-formed step ({total} evaluated paths) the parser goes on with the next one; it stops only on the opcode read (end of input or 0)", f.node)
+
+
+def _transform_steps_runs(ctx):
+    an = _Analysis.of(ctx)
+    _transform_classes(ctx)
+    keep = {f"opcode {n}" for n in tables.TRANSFORM_STEPS if n not in tables.STEPS_EXEMPT}
+    return [(l, p, s) for l, p, s in an.all_runs.get(_TB, []) if l in keep]
+
+
+def _recover_steps_runs(ctx):
+    an = _Analysis.of(ctx)
+    _recover_outcomes(ctx)
+    keep = {f"opcode {n}" for n in tables.RECOVER_STEPS}
+    return [(l, p, s) for l, p, s in an.all_runs.get(_RB, []) if l in keep]
+
+
+def _execute_steps_runs(ctx):
+    an = _Analysis.of(ctx)
+    _execute_outcomes(ctx)
+    return [(l, p, s) for l, p, s in an.all_runs.get(_XL, []) if l.startswith("executor ")]
+
+
+def _gargle_steps_runs(ctx):
+    an = _Analysis.of(ctx)
+    _gargle_outcomes(ctx)
+    return [(l, p, s) for l, p, s in an.all_runs.get(_GA, []) if l.startswith("entry ") and l != "entry start=0,end=0"]
+
+
+# ----------------------------------------------------------------------------------------------- R4
+def _recover_outcomes(ctx):
+    """member -> (status, detail, emits?) of the recover-program parser for every TransformStep opcode"""
+    an = _Analysis.of(ctx)
+    key = ("<outcomes>", _RB)
+    if key in an.cache:
+        return an.cache[key]
+    root = an.root(_RB)
+    out = {}
+    for name, val in an.enum("TransformStep").members:
+        paths, stop = an.run(_RB, f"opcode {name}", _Oracle({0: _op(val)}))
+        lit = _d(name.lower())
+        if tables.RECOVER_STEPS.get(name):
+            want = _expect([("int", 4), ("int", 4)], [("tuple", lit, _be32(1))])
+            what = f"({name.lower()!r}, <32-bit big-endian length>)"
+        elif name in tables.RECOVER_STEPS:
+            want = _expect([("int", 4)], [("tuple", lit, ("bool", True))])
+            what = f"({name.lower()!r}, True)"
+        else:
+            want, what = _skip, "nothing"
+        status, detail = _verdict(paths, stop, root, want, opcode_len=4 if name in tables.RECOVER_STEPS else None)
+        emits = None
+        if stop is None and root is not None and paths:
+            if any(p.items(root)[0] for p in paths if not p.imprecise):
+                emits = True
+            elif not any(p.items(root)[0] for p in paths):
+                emits = False
+        out[name] = (status, detail, what, emits)
+    an.cache[key] = out
+    return out
 
 
 def r4(ctx):
-    f = ctx.repo.func("beacon.parse_recover_binary")
-    seen = {}
-    for st in statements(f.node):
-        if not isinstance(st, ast.If):
+    f = ctx.repo.func(_RB)
+    out = _recover_outcomes(ctx)
+    for name in tables.RECOVER_STEPS:
+        if name not in out:
             continue
-        member = None
-        for l, op, r in compare_parts(st.test):
-            if isinstance(op, ast.Eq):
-                for a in (l, r):
-                    d = dotted(a) or ""
-                    if d.startswith("TransformStep."):
-                        member = d.split(".", 1)[1]
-        if member is None:
+        status, detail, what, _e = out[name]
+        _ob3(ctx, "R4", "AGREE", f, f"branch {name}", status, f"opcode {name} emits {what} and the parser goes on with the next step", f"opcode {name} must emit {what}; {detail}", f.node)
+    seen = {n for n, (_s, _d2, _w, e) in out.items() if e}
+    unknown = {n for n, (s, _d2, _w, e) in out.items() if e is None}
+    if unknown and (seen - unknown) == (set(tables.RECOVER_STEPS) - unknown):
+        ctx.undecided("R4", "TABLE", f, "branch set", f"whether opcodes {sorted(unknown)} emit a step could not be evaluated ({out[sorted(unknown)[0]][1]})", f.node)
+    else:
+        ctx.ob("R4", "TABLE", f, "branch set", seen == set(tables.RECOVER_STEPS), f"recover opcodes that emit a step {sorted(seen)}; reference {sorted(tables.RECOVER_STEPS)}")
+
+
+# ----------------------------------------------------------------------------------------------- execute list
+def _execute_outcomes(ctx):
+    an = _Analysis.of(ctx)
+    key = ("<outcomes>", _XL)
+    if key in an.cache:
+        return an.cache[key]
+    root = an.root(_XL)
+    out = {}
+    plain = lambda reads, items, p: None if (reads == [("int", 1)] and len(items) == 1) else "not a plain executor"  # noqa: E731
+    args = lambda reads, items, p: None if (reads == [("int", 1), ("int", 2), ("int", 4), _be32(2), ("int", 4), _be32(4)] and len(items) == 1) else "no module!function arguments"  # noqa: E731
+    for name, val in an.enum("InjectExecutor").members:
+        paths, stop = an.run(_XL, f"executor {name}", _Oracle({0: bytes([val & 0xFF])}))
+        got = None
+        for cls, want in (("plain", plain), ("args", args)):
+            status, detail = _verdict(paths, stop, root, want, opcode_len=1)
+            if status == "ok":
+                got = (cls, "")
+                break
+            if status == "undecided" and got is None:
+                got = ("undecided", detail)
+        if got is None:
+            _s, detail = _verdict(paths, stop, root, args if name in ("CreateThread_", "CreateRemoteThread_") else plain, opcode_len=1)
+            got = ("other", detail)
+        out[name] = got
+    an.cache[key] = out
+    return out
+
+
+# ----------------------------------------------------------------------------------------------- process-inject transform
+def _inject_steps(ctx):
+    an = _Analysis.of(ctx)
+    return an.run(_PI, "both present")
+
+
+# ----------------------------------------------------------------------------------------------- R9 / gargle
+_GARGLE_CASES = (("entry start!=0,end!=0", {0: False, 4: False}), ("entry start!=0,end=0", {0: False, 4: True}), ("entry start=0,end!=0", {0: True, 4: False}),
+                 ("entry start=0,end=0", {0: True, 4: True}))
+
+
+def _gargle_outcomes(ctx):
+    an = _Analysis.of(ctx)
+    return [(label,) + an.run(_GA, label, _Oracle(zero=zero)) for label, zero in _GARGLE_CASES]
+
+
+def _leaves(d, out):
+    """decoded integers of a value description, in order of appearance"""
+    if isinstance(d, tuple):
+        if d and ((d[0] == "int" and len(d) == 5) or (d[0] == "int@" and len(d) == 6)):
+            out.append(d)
+            return out
+        for x in d[1:]:
+            _leaves(x, out)
+    return out
+
+
+def r9(ctx):
+    """Sleep-mask section table: every (start, end) pair read is reported, in read order, unless it is the all-zero
+    terminator - no well-formed entry (e.g. one starting at offset 0) may be dropped."""
+    f = ctx.repo.func(_GA)
+    an = _Analysis.of(ctx)
+    root = an.root(_GA)
+    runs = _gargle_outcomes(ctx)
+    kinds, texts, dropped, unsure = set(), set(), [], []
+    located = root is not None
+    for label, paths, stop in runs:
+        if stop is not None:
+            unsure.append(f"evaluation stopped: {stop}")
             continue
-        apps = [c for s in st.body for c in ast.walk(s) if isinstance(c, ast.Call) and isinstance(c.func, ast.Attribute) and c.func.attr == "append"]
-        if len(apps) != 1 or not apps[0].args or not isinstance(apps[0].args[0], ast.Tuple) or len(apps[0].args[0].elts) != 2:
-            ctx.ob("R4", "AGREE", f, f"branch {member}", False, "branch does not append exactly one (name, value) step", st)
-            continue
-        nm, val = apps[0].args[0].elts
-        lit = _c(nm)
-        seen[member] = lit
-        carries = tables.RECOVER_STEPS.get(member)
-        if carries:
-            vo = reaching_origins(ctx, f, val, apps[0])
-            v_ok = len(vo) == 1 and isinstance(vo[0], ast.Call) and _is_be32(ctx, f, vo[0]) == (4, "big", False)
-            vd = f"value {src(val)} is the decoded 4-byte big-endian length={v_ok}"
+        for p in paths:
+            items, opaque = p.items(root) if root is not None else ([], False)
+            reads = p.reads()
+            # position in the stream of every read of the iteration (the entry is the first 8 bytes)
+            cum, pos = {}, 0
+            for i, r in enumerate(reads):
+                cum[i] = pos
+                pos = pos + r[1] if (pos is not None and r[0] == "int" and len(r) == 2) else None
+            if cum.get(len(reads) - 1) is None or pos not in (8, 12):
+                kinds.add(("reads", tuple(_show(r) for r in reads)))
+            for it in items:
+                lv = []
+                for x in _leaves(it, []):
+                    at = cum.get(x[1])
+                    if x[0] == "int":
+                        lv.append((at, x[3], x[4], x[2]))
+                    else:
+                        lv.append((at + x[2] if at is not None else None, x[4], x[5], x[3]))
+                texts.add(tuple(lv))
+            if label != "entry start=0,end=0" and not items and not opaque:
+                (unsure if p.imprecise else dropped).append(label.replace("entry ", ""))
+    if not located:
+        ctx.undecided("R9", "AGREE", f, "section table loop", "the list of sections the parser returns could not be located" + (f" ({unsure[0]})" if unsure else ""), f.node)
+        return
+    if not texts and not dropped:
+        ctx.undecided("R9", "AGREE", f, "section table loop", unsure[0] if unsure else "no entry is ever reported by a path the evaluator understands", f.node)
+        return
+    # the two integers of an entry: decoded alike from two 4-byte reads
+    decs = sorted({x for t in texts for x in t}, key=repr)
+    if not decs:
+        why = "the reported text is not built from integers decoded from the reads of the iteration in a way the rule understands" + (f" (reads: {sorted(kinds)})" if kinds else "")
+        ctx.undecided("R9", "AGREE", f, "entry = two 32-bit reads", why, f.node)
+        ctx.undecided("R9", "AGREE", f, "entry text = start-end", why, f.node)
+    else:
+        two = not kinds and {x[0] for x in decs} == {0, 4} and len({x[1:] for x in decs}) == 1 and all(x[3] == ("int", 4) and not x[2] for x in decs)
+        ctx.ob("R9", "AGREE", f, "entry = two 32-bit reads", two, f"entry integers (offset in the entry, byteorder, signed, width) {[(x[0], x[1], x[2], _show(x[3])) for x in decs]}"
+               + (f"; reads {sorted(kinds)}" if kinds else "") + " (two unsigned 4-byte reads decoded alike)", f.node)
+        # order of first use in the text
+        order = set()
+        for t in texts:
+            seen = []
+            for x in t:
+                if x[0] not in seen:
+                    seen.append(x[0])
+            order.add(tuple(seen))
+        ctx.ob("R9", "AGREE", f, "entry text = start-end", order == {(0, 4)}, f"the reported text uses the integers at offsets {sorted(order)} of the entry; required [(0, 4)] (stream order)", f.node)
+    if dropped:
+        ctx.ob("R9", "DOM", f, "every non-terminator entry reported", False, f"an entry with {sorted(set(dropped))} completes the iteration without being reported", f.node)
+    elif unsure:
+        ctx.undecided("R9", "DOM", f, "every non-terminator entry reported", unsure[0] if unsure[0].startswith("evaluation") else f"an entry with {unsure[0]} may be dropped after a test that could not be evaluated", f.node)
+    else:
+        ctx.ob("R9", "DOM", f, "every non-terminator entry reported", True, "for each of start/end non-zero the entry is appended on every path of the iteration", f.node)
+
+
+# ----------------------------------------------------------------------------------------------- R5
+def _flag_condition(c, flag):
+    """Is condition value c 'the flag is truthy'?  True / False (it is the flag's negation or something that does not
+    read this flag) / None (reads the flag in a way the rule does not understand)."""
+    pol = True
+    while True:
+        if isinstance(c, _T) and c.op == "not":
+            c, pol = c.args[0], not pol
+        elif isinstance(c, _T) and c.op == "eq" and any(isinstance(x, int) and not isinstance(x, bool) and x == 0 for x in c.args):
+            c, pol = next((x for x in c.args if not (isinstance(x, int) and x == 0)), None), not pol
+        elif isinstance(c, _T) and c.op == "cmp" and c.args[0] == "Gt" and c.args[2] == 0:
+            c = c.args[1]
+        elif isinstance(c, _T) and c.op == "cmp" and c.args[0] == "Lt" and c.args[1] == 0:
+            c = c.args[2]
         else:
-            v_ok = is_const(val, True)
-            vd = f"value {src(val)} (True required)"
-        ctx.ob("R4", "AGREE", f, f"branch {member}", lit == member.lower() and v_ok and member in tables.RECOVER_STEPS,
-               f"under step == TransformStep.{member} emits {lit!r} (required {member.lower()!r}); {vd}", st)
-    ctx.ob("R4", "TABLE", f, "branch set", set(seen) == set(tables.RECOVER_STEPS), f"recover opcodes handled {sorted(seen)}; reference {sorted(tables.RECOVER_STEPS)}")
+            break
+    if c == flag:
+        return pol
+    return None if flag in _subterms(c) else False
+
+
+def _subterms(v, depth=0):
+    out = {v}
+    if depth < 12 and isinstance(v, _T):
+        for a in v.args:
+            if isinstance(a, (_T, _Par)):
+                out |= _subterms(a, depth + 1)
+    return out
+
+
+def _gate_paths(ctx):
+    an = _Analysis.of(ctx)
+    return an.run("beacon.beacon_gate_options_string", "all flag vectors")
 
 
 def r5(ctx):
     f = ctx.repo.func("beacon.beacon_gate_options_string")
     ref = {"comms": set(tables.BEACON_GATE_COMMS), "core": set(tables.BEACON_GATE_CORE), "cleanup": set(tables.BEACON_GATE_CLEANUP)}
-    # the three group sets are found by what they are (set literals of API names), their role by which label the
-    # branch testing them reports
-    lits = {}
-    for st in statements(f.node):
-        if isinstance(st, ast.Assign) and isinstance(st.targets[0], ast.Name) and isinstance(st.value, (ast.Set, ast.List, ast.Tuple)):
-            try:
-                v = set(const_eval(st.value))
-            except (NotConst, TypeError):
-                continue
-            if v and all(isinstance(x, str) for x in v):
-                lits[st.targets[0].id] = v
-    order = []
-    opt_var = None
-    for st in statements(f.node):
-        if isinstance(st, ast.If) and isinstance(st.test, ast.Call) and isinstance(st.test.func, ast.Attribute) and st.test.func.attr == "issuperset":
-            opt_var = dotted(st.test.func.value)
-            arg = st.test.args[0] if st.test.args else None
-            names = sorted({n.id for n in ast.walk(arg) if isinstance(n, ast.Name)}) if arg is not None else []
-            lab = [c for s2 in st.body for c in ast.walk(s2) if isinstance(c, ast.Call) and isinstance(c.func, ast.Attribute) and c.func.attr == "append"]
-            sub = [s2 for s2 in st.body if isinstance(s2, ast.AugAssign) and isinstance(s2.op, ast.Sub) and dotted(s2.target) == opt_var]
-            sub_names = sorted({n.id for n in ast.walk(sub[0].value) if isinstance(n, ast.Name)}) if sub else None
-            label = _c(lab[0].args[0]) if len(lab) == 1 and lab[0].args else None
-            order.append((label, names, sub_names))
-    role = {}
-    for label, names, _sub in order:
-        if label in ("Comms", "Core", "Cleanup") and len(names) == 1:
-            role[label.lower()] = names[0]
-    groups = {k: lits.get(role.get(k)) for k in ref}
-    for k in ref:
-        ctx.ob("R5", "TABLE", f, k, groups[k] == ref[k], f"group {k} (variable {role.get(k)}): missing {sorted(ref[k] - (groups[k] or set()))} extra {sorted((groups[k] or set()) - ref[k])}")
+    labels = {"comms": "Comms", "core": "Core", "cleanup": "Cleanup"}
+    paths, stop = _gate_paths(ctx)
     cd = ctx.cdefs("beacon")["cs_struct"]
     fields = {x.name for x in cd.struct("BeaconGateOptions").fields}
-    if all(groups.values()):
+    every = ("comms", "core", "cleanup", "partition", "group tests", "remaining options", "options = {enabled flags}")
+
+    def give_up(why):
+        for t in every:
+            ctx.undecided("R5", "TABLE" if t in ref or t == "partition" else "AGREE", f, t, why, f.node)
+
+    if stop is not None or not paths:
+        give_up(f"evaluation stopped: {stop}" if stop else "no path")
+        return
+    # what every path did: the superset tests on the option set (in order, with their outcome), what it returns
+    summaries = []
+    foreign = []
+    for p in paths:
+        outcome = {}
+        for nd, core, pol, _dec in p.st.forks:
+            if isinstance(core, _T) and core.op == "superset":
+                outcome[core] = pol
+            else:
+                foreign.append(src(nd)[:60])
+        tests = []
+        for e in p.st.events:
+            if e[0] == "superset":
+                r = e[3] if isinstance(e[3], bool) else outcome.get(e[3])
+                tests.append((e[1], frozenset(e[2]), r))
+        v = p.value
+        o = p.st.heap.get(v.oid) if isinstance(v, _Ref) else None
+        items = list(o.items) if isinstance(o, _HList) and not o.opaque else None
+        summaries.append((tests, items, p))
+    roots = {t[0] for tests, _i, _p in summaries for t in tests}
+    if foreign or len(roots) != 1 or any(items is None or p.end != "return" for _t, items, p in summaries) or any(t[2] is None for tests, _i, _p in summaries for t in tests):
+        give_up(f"the function tests {foreign[0]}, which the rule does not understand" if foreign else
+                "the superset tests on the set of enabled options / the returned list could not be located")
+        return
+    root = next(iter(roots))
+    # label -> group: the set whose successful test is followed by appending that label
+    group, labelled_bad = {}, []
+    for tests, items, p in summaries:
+        labs = [x for x in items if isinstance(x, str)]
+        true_sets = [t[1] for t in tests if t[2]]
+        if len(labs) == len(true_sets):
+            for lab, s in zip(labs, true_sets):
+                if group.setdefault(lab, s) != s:
+                    labelled_bad.append(lab)
+    groups = {k: (set(group[labels[k]]) if labels[k] in group else None) for k in ref}
+    for k in ref:
+        g = groups[k]
+        ctx.ob("R5", "TABLE", f, k, g == ref[k], f"group {k} (the set reported as {labels[k]!r}): " + ("not found" if g is None else f"missing {sorted(ref[k] - g)} extra {sorted(g - ref[k])}"))
+    if all(g is not None for g in groups.values()):
         union = groups["comms"] | groups["core"] | groups["cleanup"]
         disj = len(union) == sum(len(g) for g in groups.values())
         ctx.ob("R5", "TABLE", f, "partition", disj and union == fields, f"groups are pairwise disjoint={disj} and cover the struct's fields={union == fields}")
-    allnames = sorted(role.values())
-    want = [("All", allnames, allnames)] + [(lab, [role.get(lab.lower())], [role.get(lab.lower())]) for lab in ("Comms", "Core", "Cleanup")]
-    ctx.ob("R5", "AGREE", f, "group tests", order == want and len(role) == 3, f"(label, tested, subtracted) in order: {order}; required All over all three groups first, then Comms, Core, Cleanup each subtracting what it reported")
-    ext = [c for c in fn_calls(f.node) if isinstance(c.func, ast.Attribute) and c.func.attr == "extend"]
-    ctx.ob("R5", "AGREE", f, "remaining options", len(ext) == 1 and dotted(ext[0].args[0]) == opt_var, "left-over individual APIs are appended after the groups" if len(ext) == 1 else "left-over APIs are not reported")
-    # the option set is built from the truthy flags
-    od = [v for st, v in assignments_to(f.node, opt_var) if v is not None] if opt_var else []
-    first = od[0] if od else None
-    comp = first
-    if isinstance(first, ast.Call) and dotted(first.func) == "set" and first.args:
-        comp = first.args[0]
-    o_ok = False
-    detail = f"option set built as {src(first)}: not a comprehension over the flag names filtered by the flag's truthiness"
+    # order of the tests and what each one reports and removes
+    want_labels = ["All", "Comms", "Core", "Cleanup"]
+    bad = []
+    rest_bad = []
+    for tests, items, p in summaries:
+        sets = [t[1] for t in tests]
+        exp_sets = [group.get(lab) for lab in want_labels]
+        if None in exp_sets or sets != exp_sets:
+            names = {v: k for k, v in group.items()}
+            bad.append("tests in the order " + str([names.get(s, f"<set of {len(s)}>") for s in sets]))
+            continue
+        if group["All"] != group["Comms"] | group["Core"] | group["Cleanup"]:
+            bad.append("'All' is not the union of the three groups")
+            continue
+        exp_items = [lab for lab, t in zip(want_labels, tests) if t[2]]
+        exp_subs = tuple(t[1] for t in tests if t[2])
+        labs = [x for x in items if isinstance(x, str)]
+        rest = [x for x in items if not isinstance(x, str)]
+        if labs != exp_items or items[: len(labs)] != labs:
+            bad.append(f"reports {labs} when the successful tests are {exp_items}")
+        if len(rest) != 1 or not (isinstance(rest[0], _T) and rest[0].op == "rest" and rest[0].args[0] == root):
+            rest_bad.append("the options left over are not appended after the group labels")
+        elif tuple(rest[0].args[1]) != exp_subs:
+            bad.append(f"after reporting {exp_items} the sets removed from the options are {[len(s) for s in rest[0].args[1]]} (sizes), not the reported groups")
+    ctx.ob("R5", "AGREE", f, "group tests", not bad and not labelled_bad, f"on all {len(summaries)} outcomes of the group tests: All (the union) first, then Comms, Core, Cleanup, each reporting its label and removing what it reported"
+           if not bad and not labelled_bad else (bad[0] if bad else f"label {labelled_bad[0]} is reported for different sets"))
+    ctx.ob("R5", "AGREE", f, "remaining options", not rest_bad, "left-over individual APIs are appended after the groups" if not rest_bad else rest_bad[0])
+    # the option set is built from the truthy flags of the parsed struct
+    hs = None
+    for o in paths[0].st.heap.values():
+        if isinstance(o, _HSym) and o.root == root:
+            hs = o
     bgo_p = params(f.node)[0]
-    if isinstance(comp, (ast.SetComp, ast.ListComp, ast.GeneratorExp)) and len(comp.generators) == 1 and len(comp.generators[0].ifs) == 1:
-        gen = comp.generators[0]
-        cond = gen.ifs[0]
-        tnames = [n.id for n in ast.walk(gen.target) if isinstance(n, ast.Name)]
-        elt_is_name = dotted(comp.elt) in tnames
-        pairs = isinstance(gen.target, ast.Tuple) and len(tnames) == 2 and dotted(comp.elt) == tnames[0] and dotted(cond) == tnames[1] and bgo_p in src(gen.iter)
-        reads = isinstance(cond, ast.Call) and dotted(cond.func) == "getattr" and len(cond.args) == 2 and dotted(cond.args[0]) == bgo_p and dotted(cond.args[1]) == dotted(comp.elt)
-        reads = reads or (isinstance(cond, ast.Subscript) and dotted(cond.value) == bgo_p and dotted(cond.slice) == dotted(comp.elt))
-        names_src = {n.id for n in ast.walk(gen.iter) if isinstance(n, ast.Name)}
-        all_names = reads and (set(role.values()) <= names_src or bgo_p in names_src or "BeaconGateOptions" in names_src)
-        o_ok = elt_is_name and (pairs or all_names)
-        detail = f"option set {src(first)}: element is the flag name={elt_is_name}; kept iff the flag on the parsed struct is truthy={bool(pairs or reads)}; ranges over all flags={bool(pairs or all_names)}"
-    ctx.ob("R5", "AGREE", f, "options = {enabled flags}", bool(o_ok), detail, first or f.node)
+    if hs is None:
+        ctx.undecided("R5", "AGREE", f, "options = {enabled flags}", "the set of enabled options could not be located", f.node)
+    elif hs.init is not None:
+        verdicts = {e: _flag_condition(c, _T("field", (_Par(bgo_p), e))) for e, c in hs.init.items()}
+        wrong = sorted(str(e) for e, v in verdicts.items() if v is False)
+        unknown = sorted(str(e) for e, v in verdicts.items() if v is None)
+        names = {e for e in hs.init if isinstance(e, str)}
+        ok = not wrong and names == fields
+        if unknown and ok:
+            ctx.undecided("R5", "AGREE", f, "options = {enabled flags}", f"the condition under which {unknown[:3]} are in the option set is not one the rule understands", hs.origin or f.node)
+        else:
+            ctx.ob("R5", "AGREE", f, "options = {enabled flags}", ok, f"a flag name is in the option set iff that flag of the parsed struct is truthy={not wrong}; ranges over all {len(fields)} flags={names == fields}"
+                   + (f" (missing {sorted(fields - names)[:4]}, extra {sorted(names - fields)[:4]}, not the flag's own value: {wrong[:4]})" if not ok else ""), hs.origin or f.node)
+    else:
+        # universe not enumerable by the evaluator: (name, value) pairs taken from the struct itself
+        comp = hs.origin
+        ok = None
+        if isinstance(comp, (ast.SetComp, ast.ListComp, ast.GeneratorExp)) and len(comp.generators) == 1 and len(comp.generators[0].ifs) == 1:
+            gen = comp.generators[0]
+            tn = [n.id for n in ast.walk(gen.target) if isinstance(n, ast.Name)]
+            if isinstance(gen.target, ast.Tuple) and len(tn) == 2 and any(isinstance(n, ast.Name) and n.id == bgo_p for n in ast.walk(gen.iter)):
+                ok = dotted(comp.elt) == tn[0] and dotted(gen.ifs[0]) == tn[1]
+        if ok is None:
+            ctx.undecided("R5", "AGREE", f, "options = {enabled flags}", f"the option set is built as {src(comp)[:80]}, which the rule cannot enumerate", comp or f.node)
+        else:
+            ctx.ob("R5", "AGREE", f, "options = {enabled flags}", ok, f"option set {src(comp)[:80]}: the names of the (name, value) pairs of the parsed struct whose value is truthy={ok}", comp)
 
 
 def cstruct_api():
@@ -441,12 +2921,32 @@ def r7(ctx):
     tbl = ctx.repo.const("beacon.SETTING_TO_PRETTYFUNC")
     cd = ctx.cdefs("beacon")["cs_struct"]
     bs = cd.enum("BeaconSetting").by_name()
-    ent = {}
-    for k, v in zip(tbl.keys, tbl.values):
+    names = []
+    for k in tbl.keys:
         d = dotted(k) or src(k)
         ok = d.startswith("BeaconSetting.") and d.split(".", 1)[1] in bs
         ctx.ob("R7", "TABLE", "beacon.py::SETTING_TO_PRETTYFUNC", d, ok, "key is a BeaconSetting member" if ok else "key is not a BeaconSetting member", k)
-        ent[d.split(".", 1)[-1]] = src(v)
+        names.append(d.split(".", 1)[-1])
+    # what an entry does with the setting's data (evaluated: a bare function, a partial, a lambda or a wrapper that
+    # applies the same decoder to the same data are the same thing)
+    pretty = _pretty_table(ctx)
+
+    def what(k):
+        e = pretty.get(k)
+        if e is None:
+            return None
+        node, res = e
+        inv = _invocation(res)
+        if inv is not None:
+            return ("invoke", inv[0], tuple(sorted(inv[1].items())))
+        if isinstance(res, str):
+            return ("text", src(node))
+        return _d(res)
+
+    def text(k):
+        e = pretty.get(k)
+        return src(e[0])[:60] if e is not None else "<no entry>"
+
     groups = [
         ["SETTING_PROCINJ_TRANSFORM_X86", "SETTING_PROCINJ_TRANSFORM_X64"],
         ["SETTING_TCP_FRAME_HEADER", "SETTING_SMB_FRAME_HEADER"],
@@ -455,39 +2955,105 @@ def r7(ctx):
         ["SETTING_C2_VERB_GET", "SETTING_C2_VERB_POST"],
     ]
     for g in groups:
-        vals = {ent.get(k) for k in g}
-        ctx.ob("R7", "AGREE", "beacon.py::SETTING_TO_PRETTYFUNC", "+".join(x.replace("SETTING_", "") for x in g), len(vals) == 1 and None not in vals, f"sibling settings decoded by {sorted(map(str, vals))}")
+        vals = {what(k) for k in g}
+        ctx.ob("R7", "AGREE", "beacon.py::SETTING_TO_PRETTYFUNC", "+".join(x.replace("SETTING_", "") for x in g), len(vals) == 1 and None not in vals, f"sibling settings decoded by {sorted({text(k) for k in g})}")
     want = {"SETTING_PROCINJ_EXECUTE": "parse_execute_list", "SETTING_GARGLE_SECTIONS": "parse_gargle", "SETTING_PUBKEY": "sha256sum_pubkey",
             "SETTING_PROCINJ_TRANSFORM_X86": "parse_process_injection_transform_steps", "SETTING_TCP_FRAME_HEADER": "parse_pivot_frame",
             "SETTING_DOMAINS": "null_terminated_str", "SETTING_USERAGENT": "null_terminated_str", "SETTING_SUBMITURI": "null_terminated_str"}
     for k, v in want.items():
-        ctx.ob("R7", "AGREE", "beacon.py::SETTING_TO_PRETTYFUNC", k, ent.get(k) == v, f"{k} decoded by {ent.get(k)} (required {v})")
-    ctx.rep.count("prettyfunc_entries", len(ent), floor=30)
-    # parse_execute_list: opcode byte -> InjectExecutor; the two special members read (u16be, len+str, len+str)
-    f = ctx.repo.func("beacon.parse_execute_list")
-    spec = None
-    for st in statements(f.node):
-        if isinstance(st, ast.If) and isinstance(st.test, ast.Compare) and isinstance(st.test.ops[0], ast.In):
-            spec = sorted((dotted(e) or "").split(".")[-1] for e in getattr(st.test.comparators[0], "elts", []))
-    ctx.ob("R7", "TABLE", f, "special executors", spec == ["CreateRemoteThread_", "CreateThread_"], f"executors with module!function arguments: {spec}")
+        w = what(k)
+        if w is not None and w[0] == "text":
+            ctx.undecided("R7", "AGREE", "beacon.py::SETTING_TO_PRETTYFUNC", k, f"entry {text(k)} could not be evaluated")
+            continue
+        ok = w is not None and w[0] == "invoke" and w[1] == f"beacon.{v}" and len(w[2]) == 1 and w[2][0][1] == ("param", "<data>")
+        ctx.ob("R7", "AGREE", "beacon.py::SETTING_TO_PRETTYFUNC", k, ok, f"{k} decoded by {text(k)} (required: {v} applied to the setting's data)")
+    ctx.rep.count("prettyfunc_entries", len(names), floor=30)
+    # parse_execute_list: opcode byte -> InjectExecutor; the two special members read (u16be, len+str, len+str), every
+    # other member nothing more; each emits exactly one entry
+    f = ctx.repo.func(_XL)
+    out = _execute_outcomes(ctx)
+    und = {n: d for n, (c, d) in out.items() if c == "undecided"}
+    spec = sorted(n for n, (c, _d2) in out.items() if c == "args")
+    other = {n: d for n, (c, d) in out.items() if c == "other"}
+    if und:
+        ctx.undecided("R7", "TABLE", f, "special executors", f"executors {sorted(und)} could not be evaluated: {next(iter(und.values()))}", f.node)
+    else:
+        ctx.ob("R7", "TABLE", f, "special executors", spec == ["CreateRemoteThread_", "CreateThread_"] and not other,
+               f"executors with (offset, module, function) arguments: {spec}" + (f"; neither plain nor with arguments: { {n: d[:160] for n, d in other.items()} }" if other else ""), f.node)
+    # process-inject transform: (length, bytes) twice, reported as append then prepend
+    g = ctx.repo.func(_PI)
+    an = _Analysis.of(ctx)
+    paths, stop = _inject_steps(ctx)
+    want_f = _expect([("int", 4), _be32(0), ("int", 4), _be32(2)], [("tuple", ("str", "append"), ("read", 1)), ("tuple", ("str", "prepend"), ("read", 3))])
+    status, detail = _verdict([p for p in paths], stop, an.root(_PI), lambda r, i, p: want_f(r, i, p) if p.end in ("return", "fall") else "does not return", None)
+    _ob3(ctx, "R7", "AGREE", g, "append/prepend pair", status, "two length-prefixed byte strings, reported as ('append', ..) then ('prepend', ..)", f"required two length-prefixed byte strings reported as append then prepend; {detail}", g.node)
     # pivot frame & null-terminated helpers
     g = ctx.repo.func("beacon.null_terminated_bytes")
-    part = [c for c in fn_calls(g.node) if isinstance(c.func, ast.Attribute) and c.func.attr in ("partition", "split", "find", "index")]
-    ok = len(part) == 1 and part[0].func.attr == "partition" and part[0].args and is_const(part[0].args[0], b"\x00")
-    ctx.ob("R7", "AGREE", g, "partition(b'\\x00')", ok, "cuts at the first NUL" if ok else f"NUL cut is {[src(p) for p in part]}")
+    cut_ok, cut_detail = _nul_cut(ctx, g)
+    if cut_ok is None:
+        ctx.undecided("R7", "AGREE", g, "partition(b'\\x00')", cut_detail, g.node)
+    else:
+        ctx.ob("R7", "AGREE", g, "partition(b'\\x00')", cut_ok, cut_detail)
     # strings: every byte before the NUL becomes exactly one character - only a total single-byte codec does that
     # (latin-1); ascii/utf-8 with "ignore" and the Windows code pages drop or remap high bytes
     h = ctx.repo.func("beacon.null_terminated_str")
-    dec = [c for c in fn_calls(h.node) if isinstance(c.func, ast.Attribute) and c.func.attr == "decode"]
-    codec = None
-    if len(dec) == 1:
-        cv = dec[0].args[0] if dec[0].args else kwarg(dec[0], "encoding")
-        codec = str(_c(cv)).lower().replace("_", "-") if cv is not None and isinstance(_c(cv), str) else ("utf-8" if cv is None else None)
-    inner = dec[0].func.value if len(dec) == 1 else None
-    cut = isinstance(inner, ast.Call) and ctx.rs.resolve_call(h, inner).fq == "beacon.null_terminated_bytes" and inner.args and dotted(inner.args[0]) == params(h.node)[0]
-    ok = codec in ("latin-1", "latin1", "iso-8859-1", "iso8859-1", "l1", "8859") and bool(cut)
-    ctx.ob("R7", "AGREE", h, "null_terminated_bytes(data).decode(<total single-byte codec>)", ok,
-           f"decodes the NUL-cut bytes={bool(cut)} with codec {codec!r}" + ("" if ok else " (required latin-1: one character per byte, nothing dropped or remapped)"), h.node)
+    # evaluated with package calls kept symbolic: the value returned is <cut>(data).decode(codec)
+    dec_terms, stop = [], None
+    ev_int = _Ev(ctx)
+    ev_int.intercept = True
+    try:
+        res = ev_int.run(h)
+    except (_Stop, RecursionError, AttributeError, TypeError, ValueError, KeyError, IndexError) as e:
+        res, stop = [], f"{type(e).__name__}: {e}"
+    for _st, sig in res:
+        dec_terms.append(sig[1] if isinstance(sig, tuple) and sig[0] == "return" else None)
+    codec, cut, shape = None, False, None
+    if dec_terms and all(isinstance(v, _T) and v.op == "meth:decode" for v in dec_terms) and len({_d(v) for v in dec_terms}) == 1:
+        v = dec_terms[0]
+        inner = v.args[0]
+        rest = [a for a in v.args[1:]]
+        enc = None
+        for a in rest:
+            if isinstance(a, tuple) and len(a) == 2 and a[0] == "encoding":
+                enc = a[1]
+        pos = [a for a in rest if not (isinstance(a, tuple) and len(a) == 2 and isinstance(a[0], str) and a[0] in ("encoding", "errors"))]
+        if enc is None:
+            enc = pos[0] if pos else "utf-8"
+        codec = enc.lower().replace("_", "-") if isinstance(enc, str) else None
+        inv = _invocation(inner)
+        cut = inv is not None and inv[0] == "beacon.null_terminated_bytes" and list(inv[1].values()) == [("param", params(h.node)[0])]
+        shape = True
+    if shape is None:
+        ctx.undecided("R7", "AGREE", h, "null_terminated_bytes(data).decode(<total single-byte codec>)", "the returned value is not a single .decode(..) of bytes" + (f" ({stop})" if stop else ""), h.node)
+    else:
+        ok = codec in ("latin-1", "latin1", "iso-8859-1", "iso8859-1", "l1", "8859", "cp819", "iso-ir-100") and bool(cut)
+        ctx.ob("R7", "AGREE", h, "null_terminated_bytes(data).decode(<total single-byte codec>)", ok,
+               f"decodes the NUL-cut bytes={bool(cut)} with codec {codec!r}" + ("" if ok else " (required latin-1: one character per byte, nothing dropped or remapped)"), h.node)
+
+
+def _nul_cut(ctx, g):
+    """Does null_terminated_bytes return the bytes before the first NUL?  (True/False/None, detail)"""
+    paths, stop = _run(ctx, g)
+    if stop is not None or not paths:
+        return None, f"evaluation stopped: {stop}"
+    p0 = params(g.node)[0]
+    data = _Par(p0)
+    vals = {_d(p.value) for p in paths}
+    good = {
+        _d(_T("item", (_T("meth:partition", (data, b"\x00")), 0))),
+        _d(_T("getitem", (_T("meth:partition", (data, b"\x00")), 0))),
+        _d(_T("getitem", (_T("meth:split", (data, b"\x00", 1)), 0))),
+        _d(_T("getitem", (_T("meth:split", (data, b"\x00")), 0))),
+        _d(_T("item", (_T("meth:split", (data, b"\x00", 1)), 0))),
+    }
+    if vals and vals <= good:
+        return True, "cuts at the first NUL"
+    shown = sorted(_show(v) for v in vals)
+    # a value cut from the data at the *last* NUL or by stripping: located (it is what the function returns) and wrong
+    text = " ".join(repr(v) for v in vals)
+    if all(isinstance(p.value, _T) for p in paths) and any(t in text for t in ("meth:rpartition", "meth:rsplit", "meth:rstrip", "meth:strip", "meth:rfind", "meth:rindex")):
+        return False, f"NUL cut is {shown}"
+    return None, f"the returned value {shown} is not a cut the rule understands"
 
 
 def r8(ctx):
@@ -495,11 +3061,15 @@ def r8(ctx):
             "protocol": "SETTING_PROTOCOL", "is_trial": "SETTING_CRYPTO_SCHEME", "public_key": "SETTING_PUBKEY", "submit_uri": "SETTING_SUBMITURI"}
     for prop, key in want.items():
         f = ctx.repo.func(f"beacon.BeaconConfig.{prop}")
-        keys = [_c(c.args[0]) for c in fn_calls(f.node) if isinstance(c.func, ast.Attribute) and c.func.attr == "get" and c.args]
-        keys += [_c(n.slice) for n in body_walk(f.node) if isinstance(n, ast.Subscript) and isinstance(n.slice, ast.Constant)]
-        ctx.ob("R8", "AGREE", f, prop, keys == [key], f"reads {keys} (required [{key!r}])")
+        keys = _setting_keys(ctx, f)
+        if keys is None:
+            # fall back to the text of the function: the keys of every .get(..) / [..] on a settings mapping
+            ks = [_c(c.args[0]) for c in fn_calls(f.node) if isinstance(c.func, ast.Attribute) and c.func.attr == "get" and c.args]
+            ks += [_c(n.slice) for n in body_walk(f.node) if isinstance(n, ast.Subscript) and isinstance(n.slice, ast.Constant)]
+            keys = {k for k in ks if isinstance(k, str)}
+        ctx.ob("R8", "AGREE", f, prop, keys == {key}, f"reads {sorted(keys)} (required [{key!r}])")
     f = ctx.repo.func("beacon.BeaconConfig.is_trial")
-    ok = any(isinstance(n, ast.Compare) and isinstance(n.ops[0], ast.Eq) and "CryptoScheme.CRYPTO_TRIAL_PRODUCT" in (dotted(n.left), dotted(n.comparators[0])) for n in body_walk(f.node))
+    ok = any(isinstance(op, (ast.Eq, ast.NotEq)) and "CryptoScheme.CRYPTO_TRIAL_PRODUCT" in (dotted(l), dotted(r)) for n in body_walk(f.node) if isinstance(n, ast.Compare) for l, op, r in compare_parts(n))
     ctx.ob("R8", "AGREE", f, "== CRYPTO_TRIAL_PRODUCT", ok, "trial flag compares with CRYPTO_TRIAL_PRODUCT" if ok else "trial flag does not compare with CRYPTO_TRIAL_PRODUCT")
     cd = ctx.cdefs("beacon")["cs_struct"]
     ctx.ob("R8", "TABLE", "beacon.py::CS_DEF::enum CryptoScheme", "members", cd.enum("CryptoScheme").by_name() == {"CRYPTO_LICENSED_PRODUCT": 0, "CRYPTO_TRIAL_PRODUCT": 1}, str(cd.enum("CryptoScheme").by_name()))
@@ -513,7 +3083,11 @@ def r8(ctx):
     # domains / uris: even and odd members of grouper(..., 2)
     pairs = ctx.repo.func("beacon.BeaconConfig.domain_uri_pairs")
     g = [c for c in fn_calls(pairs.node) if ctx.rs.resolve_call(pairs, c).fq == "utils.grouper"]
-    ok = len(g) == 1 and _c(g[0].args[1] if len(g[0].args) > 1 else kwarg(g[0], "n")) == 2
+    gf = ctx.repo.func("utils.grouper") if ctx.repo.has_func("utils.grouper") else None
+    nval = None
+    if len(g) == 1:
+        nval = _c(bind_args(g[0], gf.node).get(params(gf.node)[1])) if gf is not None and len(params(gf.node)) > 1 else _c(g[0].args[1] if len(g[0].args) > 1 else kwarg(g[0], "n"))
+    ok = len(g) == 1 and nval == 2
     sp = [c for c in fn_calls(pairs.node) if isinstance(c.func, ast.Attribute) and c.func.attr == "split" and c.args and is_const(c.args[0], ",")]
     ctx.ob("R8", "AGREE", pairs, "grouper(split(','), 2)", ok and len(sp) == 1, "pairs are consecutive members of the comma-separated list" if ok else "pairing is not grouper(..., 2)")
     for prop, idx in (("domains", 0), ("uris", 1)):
@@ -530,3 +3104,41 @@ def r8(ctx):
     f = ctx.repo.func("beacon.BeaconConfig.max_setting_enum")
     ok = any(isinstance(c, ast.Call) and dotted(c.func) == "max" and c.args and dotted(c.args[0]) == "self.setting_enums" for c in fn_calls(f.node))
     ctx.ob("R8", "AGREE", f, "max(self.setting_enums)", ok, "highest setting index" if ok else "not max(self.setting_enums)")
+
+
+def _setting_keys(ctx, f):
+    """The SETTING_* keys that the value returned by a derived property (or a decision on the way) depends on, found
+    by evaluating the property; None when it cannot be evaluated."""
+    ev = _Ev(ctx)
+    ev.intercept = True
+    try:
+        res = ev.run(f)
+    except (_Stop, RecursionError, AttributeError, TypeError, ValueError, KeyError, IndexError):
+        return None
+    keys = set()
+
+    def walk(v, depth=0):
+        if depth > 40:
+            return
+        if isinstance(v, str):
+            if v.startswith("SETTING_"):
+                keys.add(v)
+        elif isinstance(v, _T):
+            for a in v.args:
+                walk(a, depth + 1)
+        elif isinstance(v, (tuple, frozenset)):
+            for a in v:
+                walk(a, depth + 1)
+        elif isinstance(v, _En):
+            walk(v.value, depth + 1)
+
+    for st, sig in res:
+        if isinstance(sig, tuple) and sig[0] == "return":
+            walk(sig[1])
+            if isinstance(sig[1], _Ref):
+                o = st.heap.get(sig[1].oid)
+                for x in getattr(o, "items", []) or []:
+                    walk(x)
+        for _nd, core, _pol, _dec in st.forks:
+            walk(core)
+    return keys
